@@ -5,23 +5,29 @@ proof:  lean/AdeptProofs/Props/C11.lean — per misuse class `precondition => ex
         the allocated length), `usable after` (a history with its failing operations removed ends in the same state), over
         AdeptModel/StackProto.lean (stack protocol, part A) and AdeptModel/Misuse.lean (array operations, part B).
 tie:    part A  model family `tape`  <-> adept::Stack / adouble   (harness/drv_tape.cpp),
-        part B  model family `misuse` <-> Vector/Matrix/intVector/intMatrix (harness/drv_misuse.cpp);
-        valid random histories with misuses injected at random points; every output line compared exactly; ASan+UBSan.
+        part B  model family `misuse` <-> passive Array<1..4,int|Real>, FixedArray, SymmMatrix, TridiagMatrix, active
+                Array<1..2,Real> while recording (harness/drv_misuse.cpp, one translation unit per MISUSE_PART);
+        valid random histories with misuses injected at random points + directed sweeps; every output line compared exactly;
+        ASan+UBSan.
 oracles (do not use the Lean model):
         (1) table of documented exceptions written from doc/adept_documentation.tex + include/adept/exception.h, decided from
             the protocol/extents the generator knows and from the implementation's own indices, tape and allocator lines;
         (2) the same history with every failing operation removed is run through the implementation again: all other lines
             must be identical (nothing of a failed operation may leak into later results);
         (3) part A: every pass / Jacobian re-evaluated in Python from the implementation's own tape dump (as C10);
-            part B: element-wise integer re-evaluation of every successful array operation in Python;
+            part B: element-wise integer re-evaluation of every successful array operation in Python, dual-number
+            re-evaluation of every Jacobian of the active arrays; a failed active statement must have pushed 0 statements and
+            0 operations on the recording (SpyStack counters, printed by the driver as rec+dS+dO);
         (4) any sanitizer report or abnormal exit is a violation with the history as replay.
 """
-import os, json, re
+import os, json, re, struct, math, hashlib, time, threading
 from concurrent.futures import ThreadPoolExecutor
 import vbuild, vcheck
 import tapecommon as tc
 
 LEVEL = "proof"
+PER_CLASS_QUICK = 100
+PER_CLASS_THOROUGH = 800
 NSA = "Adept.StackProto."
 NSB = "Adept.Misuse."
 REQUIRED_A = ["C11_pass_before_seed", "C11_get_before_seed", "C11_created_after_seed", "C11_pass_after_creation",
@@ -31,7 +37,14 @@ REQUIRED_B = ["C11_arr_negative_extent_new", "C11_arr_negative_extent_resize", "
               "C11_arr_compound_mismatch", "C11_arr_where_mismatch", "C11_arr_fill_overflow", "C11_arr_fill_object_overflow",
               "C11_arr_fill_empty", "C11_arr_not_square", "C11_arr_link_empty", "C11_arr_matmul_empty",
               "C11_arr_matmul_inner", "C11_arr_permute_invalid", "C11_arr_index_out_of_bounds", "C11_arr_no_wild_access",
-              "C11_arr_usable_after"]
+              "C11_arr_usable_after",
+              # ranks 1-4, mismatches inside expressions that are not assignments, special targets, active arrays
+              "C11_arr_negative_extent_ranks", "C11_arr_reduce_mismatch", "C11_arr_reduce_dim_invalid", "C11_arr_reduce_empty",
+              "C11_arr_loc_mismatch", "C11_arr_expand_mismatch", "C11_arr_spread_target", "C11_arr_expand_step",
+              "C11_arr_wherex_mismatch", "C11_arr_eor_mismatch", "C11_arr_solve_invalid", "C11_arr_special_resize",
+              "C11_arr_special_assign_mismatch", "C11_arr_special_expr_mismatch", "C11_arr_special_not_square",
+              "C11_arr_active_mismatch", "C11_arr_active_target_mismatch", "C11_arr_active_failed_jac",
+              "C11_arr_reduce_no_wild_access"]
 
 A_CLASSES = ["pass_before_seed", "get_before_seed", "created_after_seed", "pass_after_creation", "jac_no_lists",
              "jac_wrong_size", "append_wrong_lhs", "second_stack"]
@@ -632,30 +645,56 @@ def run(ctx, replay):
               for c in corpus if c["part"] == "B" and (c["build"] in (None, label))]
         if cc:
             run_cases_b(ctx, exe, label + "/corpus", cc)
-        per = (150 if quick else 2000)
+        negdim_ok = probe_negdim(ctx, exe, label, bounds)
+        ctx.notes.setdefault("partB", {})["negative_dimension_argument_generated"] = negdim_ok
+        run_cases_b(ctx, exe, label + "/directed", directed_cases_b(bounds, negdim_ok))
+        per = (PER_CLASS_QUICK if quick else PER_CLASS_THOROUGH)
         cases = []
         for cls in B_CLASSES:
             if cls == "index_oob" and not bounds:
                 continue
             for j in range(per):
-                cases.append(gen_case_b(ctx.rng, bounds, cls, maxdim=5 if quick else 9))
+                cases.append(gen_case_b(ctx.rng, bounds, cls, maxdim=5 if quick else 9, negdim_ok=negdim_ok))
+        # mixed histories: all three families of objects in one pool
+        for j in range(per):
+            prof = ctx.rng.choice(["special", "active"])
+            ok = [c for c in B_CLASSES if (bounds or c != "index_oob") and (prof == "active" or c != "active_mismatch")
+                  and (prof == "special" or c not in SPECIAL_CLASSES)]
+            cases.append(gen_case_b(ctx.rng, bounds, ctx.rng.choice(ok), maxdim=5 if quick else 9, negdim_ok=negdim_ok, profile=prof))
         for k in range(0, len(cases), 400):
             run_cases_b(ctx, exe, label, cases[k:k + 400])
     ctx.cov["rule"] = ("part A: protocol histories of tapecommon.Gen (1-2 recordings, all scalar statement forms, new/delete, "
                        "pause/continue in the pausable build, 2-4 rounds of seeds+pass or lists+Jacobian) with the 8 stack misuse "
                        "classes injected at random points (the wanted class at every possible point with p=0.45, the others with "
                        "p=0.04), %d histories per class and build; part B: histories of 8-30 valid array operations over a pool of "
-                       "int/double vectors and matrices (extents 0..%d) with the 16 array misuse classes injected (wanted class "
-                       "p=0.5 per step, others p=0.03), %d histories per class and build (default, ADEPT_BOUNDS_CHECKING); "
-                       "corpus/C11/*.case first; non-trivial = at least one operation failed; distinct = different (part, build, "
-                       "op list)" % (150 if quick else 2000, 5 if quick else 9, 150 if quick else 2000))
+                       "passive int/double arrays of rank 1-4 (ranks 1,2: 75 %%, 3,4: 25 %%; extents 0..%d, 0..3 for rank 3/4), with the "
+                       "`special` profile also FixedArray<3>, FixedArray<2,3>, SymmMatrix, TridiagMatrix objects, with the `active` "
+                       "profile also active vectors and matrices inside a recording (rec / jac), with the %d array misuse classes "
+                       "injected (wanted class p=0.5 per step, others p=0.03), %d histories per class and build (default, "
+                       "ADEPT_BOUNDS_CHECKING) plus as many mixed-profile histories; before them, every run, the directed sweeps of "
+                       "directed_cases_b (every reduction function x rank 1-4 x whole / each dimension / each out-of-range dimension "
+                       "argument x consistent / disagreeing / empty operands; minloc maxloc find dot_product outer_product spread "
+                       "diag_vector diag_matrix where either_or solve; negative extents for every rank and resize form; special and "
+                       "active targets); corpus/C11/*.case first; non-trivial = at least one operation failed; distinct = different "
+                       "(part, build, op list)" % (150 if quick else 2000, 5 if quick else 9, len(B_CLASSES), PER_CLASS_QUICK if quick else PER_CLASS_THOROUGH))
     ctx.notes["builds"] = [l for l, _ in va] + ["misuse-" + l for l, _ in vb]
     ctx.notes["documented_exception_table"] = {"A": DOC_A, "B": {k: sorted(v) for k, v in DOC_B.items()}}
     ctx.assumptions += ["deactivate() is always followed at once by activate() (no active object is touched without a stack)",
                         "integer-valued tapes / arrays in the exact regime (|values| <= %d in part B)" % VMAX,
-                        "part B: passive arrays of rank 1 and 2 only; a successful link() is detached again by the harness (sharing is "
-                        "C07's business); inv() is exercised on non-square matrices and on signed permutation matrices only; "
-                        "out-of-range indices are only generated in the ADEPT_BOUNDS_CHECKING build",
+                        "part B: passive arrays of rank 1-4, active arrays of rank 1-2, FixedArray<3> / FixedArray<2,3> / SymmMatrix / "
+                        "TridiagMatrix (passive); a successful link() is detached again by the harness (sharing is C07's business); "
+                        "inv() and solve() are exercised on non-square / mismatched operands and on signed permutation matrices only; "
+                        "out-of-range indices are only generated in the ADEPT_BOUNDS_CHECKING build; mean / norm2 of consistent ACTIVE "
+                        "operands are not generated (non-integer derivatives); Jacobians are requested with respect to active arrays "
+                        "whose storage is unchanged since the last new_recording",
+                        "a failing `<<` and a failing where(m) = either_or(c, d) keep their partial effect (the first is documented, the "
+                        "second is what the code does: two conditional assignments, each with its own size test) and therefore stay in "
+                        "the failed-operations-removed history",
+                        "an outer product with an empty factor is reported as size_mismatch (the code's choice; the manual names no "
+                        "class); reductions of EMPTY expressions return 0 / the empty array without exception (also for an invalid "
+                        "dimension argument), as coded",
+                        "a negative dimension argument of a reduction along a dimension (rank >= 2) is generated only when the tree "
+                        "reports it (probe_negdim); on the pinned tree it overruns a stack buffer: KNOWN-FINDING line, see PENDING_FINDINGS",
                         "where the manual does not say which of two applicable exceptions is raised (empty operand AND inner mismatch; "
                         "missing permute argument AND empty array; a negative extent after a zero extent) the order of the tests in "
                         "the headers is taken as the reference",
@@ -677,7 +716,13 @@ def run(ctx, replay):
 # =====================================================================================================================
 B_CLASSES = ["neg_new", "neg_resize", "expr_mismatch", "assign_mismatch", "compound_mismatch", "where_mismatch",
              "fill_overflow", "fill_object_overflow", "fill_empty", "not_square", "link_empty", "matmul_empty",
-             "matmul_inner", "permute_invalid", "view_invalid", "index_oob"]
+             "matmul_inner", "permute_invalid", "view_invalid", "index_oob",
+             # mismatches inside expressions that are not assignments
+             "reduce_mismatch", "reduce_dim_invalid", "loc_mismatch", "expand_mismatch", "wherex_mismatch", "eor_mismatch",
+             # square / non-empty / special targets
+             "solve_invalid", "special_mismatch", "special_resize",
+             # active arrays while recording
+             "active_mismatch"]
 DOC_B = {
     "neg_new": {"invalid_dimension"},                # "Attempt to create an array with a negative dimension"
     "neg_resize": {"invalid_dimension"},
@@ -695,12 +740,30 @@ DOC_B = {
     "permute_invalid": {"invalid_dimension", "empty_array"},
     "view_invalid": {"invalid_dimension", "index_out_of_bounds"},
     "index_oob": {"index_out_of_bounds"},            # only with ADEPT_BOUNDS_CHECKING
+    "reduce_mismatch": {"size_mismatch"},            # sum(a+b) …: "operation taking two arguments ... not of the same size"
+    "reduce_dim_invalid": {"invalid_dimension"},     # "dim must be less than rank" (reduce.h); the manual names no class of its own
+    "loc_mismatch": {"size_mismatch"},               # dot_product: "rank-1 arrays of the same length"
+    "expand_mismatch": {"size_mismatch", "invalid_dimension"},   # invalid_dimension: spread(x, n<0) into an empty array
+    "wherex_mismatch": {"size_mismatch"},            # "A must be of the same size and rank of the boolean expression"
+    "eor_mismatch": {"size_mismatch"},
+    "solve_invalid": {"invalid_operation", "size_mismatch"},
+    "special_mismatch": {"size_mismatch", "invalid_dimension"},  # invalid_dimension: non-square expression into an EMPTY square matrix
+    "special_resize": {"invalid_dimension"},
+    "active_mismatch": {"size_mismatch", "invalid_dimension"},
 }
 VMAX = 5000
+EXACT = 2 ** 31 - 1          # no intermediate of an int or double computation may exceed this (int arrays: no overflow)
+RED_NUM = ["sum", "mean", "product", "minval", "maxval", "norm2"]
+RED_BOOL = ["all", "any", "count"]
+KINDS_DYN = "di"
 
 
 class Exc(Exception):
     pass
+
+
+class Inexact(Exception):
+    """the operation leaves the exact regime (the generator drops it)"""
 
 
 def pat(seed, t):
@@ -714,11 +777,28 @@ def prod(ds):
     return p
 
 
-class PyArr:
-    __slots__ = ("ty", "dims", "vals")
+def chk(v):
+    if abs(v) > EXACT:
+        raise Inexact()
+    return v
 
-    def __init__(self, ty, dims, vals):
+
+def numstr(x):
+    """as harness num(): integral values in decimal, anything else as the bit pattern of the double"""
+    if isinstance(x, int):
+        return str(x)
+    if x == int(x) and abs(x) < 9.0e15:
+        return str(int(x))
+    return "x%016x" % struct.unpack("<Q", struct.pack("<d", x))[0]
+
+
+class PyArr:
+    __slots__ = ("ty", "dims", "vals", "der", "inp", "vars")
+
+    def __init__(self, ty, dims, vals, der=None, inp=False, vars_=None):
         self.ty, self.dims, self.vals = ty, list(dims), list(vals)
+        self.der = der if der is not None else ([{} for _ in self.vals] if ty == "a" else None)
+        self.inp, self.vars = inp, list(vars_ or [])
 
     @property
     def rank(self):
@@ -729,13 +809,67 @@ class PyArr:
         return self.dims[0] == 0
 
     def copy(self):
-        return PyArr(self.ty, self.dims, self.vals)
+        return PyArr(self.ty, self.dims, self.vals, [dict(d) for d in self.der] if self.der is not None else None, self.inp, self.vars)
 
     def show(self):
-        return "%s[%s]=%s" % (self.ty, "x".join(map(str, self.dims)), ",".join(map(str, self.vals)))
+        return "%s[%s]=%s" % (self.ty, "x".join(map(str, self.dims)), ",".join(map(numstr, self.vals)))
 
     def at(self, i, j):
         return self.vals[i * self.dims[1] + j]
+
+
+def view(dims, vals):
+    return "ok view[%s]=%s" % ("x".join(map(str, dims)), ",".join(map(numstr, vals)))
+
+
+# ---- derivative rows (active arrays): {variable id: coefficient}
+def d_add(a, b, ca=1, cb=1):
+    out = {}
+    for src, c in ((a, ca), (b, cb)):
+        if c == 0:
+            continue
+        for k, v in src.items():
+            out[k] = chk(out.get(k, 0) + c * v)
+    return {k: v for k, v in out.items() if v != 0}
+
+
+def project(ty, dims, vals):
+    """what a square special matrix keeps of an n x n expression: SymmMatrix reads the lower triangle (and mirrors it),
+    TridiagMatrix the three central diagonals"""
+    if ty not in "st" or not vals:
+        return list(vals)
+    n = dims[0]
+    if ty == "s":
+        return [vals[max(i, j) * n + min(i, j)] for i in range(n) for j in range(n)]
+    return [vals[i * n + j] if abs(i - j) <= 1 else 0 for i in range(n) for j in range(n)]
+
+
+def handles_of(w):
+    """the handles the driver shows after the op, in its order"""
+    c = w[0]
+    if c in ("red", "redd", "loc"):
+        return [int(w[2]), int(w[4])]
+    if c == "asg":
+        return [int(w[1]), int(w[2]), int(w[4])]
+    if c in ("cp", "cadd", "csub", "cmul", "link", "find", "dot", "diagm", "solve", "jac"):
+        return [int(w[1]), int(w[2])]
+    if c in ("where", "matmul", "diagva"):
+        return [int(w[1]), int(w[2]), int(w[3])]
+    if c == "diagv":
+        return [int(w[1]), int(w[2])]
+    if c == "outer":
+        return [int(x) for x in w[1:5]]
+    if c == "spread":
+        return [int(w[1]), int(w[3]), int(w[4])]
+    if c == "wherex":
+        return [int(x) for x in w[1:6]]
+    if c == "eor":
+        return [int(x) for x in w[1:5]]
+    if c in ("reda", "redda"):
+        return [int(w[1]), int(w[3]), int(w[5])]
+    if c == "fill":
+        return [int(w[1])] + [int(x[1:]) for x in w[2:] if x[0] == "a"]
+    return [int(w[1])]
 
 
 class PyPool:
@@ -744,10 +878,12 @@ class PyPool:
     def __init__(self, bounds=False):
         self.bounds = bounds
         self.a = {}
+        self.nvar = 0
 
     def clone(self):
         p = PyPool(self.bounds)
         p.a = {k: v.copy() for k, v in self.a.items()}
+        p.nvar = self.nvar
         return p
 
     # -- helpers
@@ -764,69 +900,239 @@ class PyPool:
         return list(dims)
 
     @staticmethod
+    def square_extent(dims):
+        """SymmMatrix / TridiagMatrix(n) or (n, m), resize(n) / resize(n, m): the two-extent form must be square"""
+        if len(dims) == 2 and dims[0] != dims[1]:
+            raise Exc("invalid_dimension")
+        if dims[0] < 0:
+            raise Exc("invalid_dimension")
+        return [dims[0], dims[0]]
+
+    @staticmethod
     def fresh(ty, dims, seed):
         n = prod(dims)
-        return PyArr(ty, dims, [pat(seed, t) for t in range(n)])
+        vals = [pat(seed, t) for t in range(n)]
+        if ty in "st":
+            m = dims[0]
+            if ty == "s":
+                vals = [pat(seed, max(i, j) * m + min(i, j)) for i in range(m) for j in range(m)]
+            else:
+                vals = [pat(seed, i * m + j) if abs(i - j) <= 1 else 0 for i in range(m) for j in range(m)]
+        return PyArr(ty, dims, vals)
 
-    def assign(self, t, dims, vals):
-        """t = <expression of extents dims>; dims None = operands of different extents"""
+    def assign(self, t, dims, vals, der=None):
+        """t = <expression of extents dims>; dims None = operands of different extents.  Returns the new target."""
         if dims is None:
             raise Exc("size_mismatch")
+        dims = list(dims)
+        if t.ty == "f":
+            if dims != t.dims:
+                raise Exc("size_mismatch")
+            return PyArr("f", t.dims, vals)
+        if t.ty in "st":
+            if t.empty:
+                if dims[0] != dims[1]:          # resize(d0, d1) of a square matrix
+                    raise Exc("invalid_dimension")
+                return PyArr(t.ty, dims, project(t.ty, dims, vals))
+            if dims != t.dims:
+                raise Exc("size_mismatch")
+            return PyArr(t.ty, t.dims, project(t.ty, dims, vals))
         if t.empty:
-            return PyArr(t.ty, dims, vals)
-        if list(dims) != t.dims:
+            if dims[0] == 0:
+                dims = [0] * len(dims)
+            return PyArr(t.ty, dims, vals, der, False, [])      # new storage: no longer the object that was an input
+        if dims != t.dims:
             raise Exc("size_mismatch")
-        return PyArr(t.ty, t.dims, vals)
+        return PyArr(t.ty, t.dims, vals, der, t.inp, t.vars)
 
-    # -- one op; returns (status, handles shown)
+    @staticmethod
+    def binexpr(op, x, y):
+        """(extents | None, values, derivative rows | None) of the element-wise expression x op y"""
+        if x.dims != y.dims:
+            return None, [], None
+        f = {"add": lambda p, q: p + q, "sub": lambda p, q: p - q, "mul": lambda p, q: p * q}[op]
+        vals = [chk(f(p, q)) for p, q in zip(x.vals, y.vals)]
+        der = None
+        if x.ty == "a":
+            if op == "mul":
+                der = [d_add(dx, dy, q, p) for p, q, dx, dy in zip(x.vals, y.vals, x.der, y.der)]
+            else:
+                der = [d_add(dx, dy, 1, 1 if op == "add" else -1) for dx, dy in zip(x.der, y.der)]
+        return x.dims, vals, der
+
+    @staticmethod
+    def reduce_list(fn, vals, der=None):
+        """one reduction over a non-empty list: (value, derivative row | None)"""
+        if fn == "sum" or fn == "mean":
+            s = chk(sum(vals))
+            d = None
+            if der is not None:
+                d = {}
+                for r in der:
+                    d = d_add(d, r)
+            if fn == "mean":
+                return s / len(vals), d
+            return s, d
+        if fn == "product":
+            p = 1
+            d = {} if der is not None else None
+            for i, v in enumerate(vals):
+                if der is not None:
+                    d = d_add(d, der[i], v, p)          # d(p*v) = v dp + p dv
+                p = chk(p * v)
+            return p, d
+        if fn in ("minval", "maxval"):
+            best = 0
+            for i, v in enumerate(vals):                   # the first extreme element (strict comparison)
+                if (v < vals[best]) if fn == "minval" else (v > vals[best]):
+                    best = i
+            return vals[best], (der[best] if der is not None else None)
+        if fn == "norm2":
+            ss = chk(sum(chk(v * v) for v in vals))
+            return math.sqrt(ss), None
+        if fn == "all":
+            return int(all(vals)), None
+        if fn == "any":
+            return int(any(vals)), None
+        if fn == "count":
+            return sum(1 for v in vals if v), None
+        raise RuntimeError(fn)
+
+    @staticmethod
+    def strips(dims, dim):
+        """index lists of the strips along `dim` of a row-major array, in the order of the reduced array"""
+        rank = len(dims)
+        out_dims = [d for q, d in enumerate(dims) if q != dim]
+        strides = [prod(dims[q + 1:]) for q in range(rank)]
+        res = []
+        for t in range(prod(out_dims)):
+            idx, r = [], t
+            for d in reversed(out_dims):
+                idx.append(r % d); r //= d
+            idx.reverse()
+            full = idx[:dim] + [0] + idx[dim:]
+            base = sum(i * s for i, s in zip(full, strides))
+            res.append([base + q * strides[dim] for q in range(dims[dim])])
+        return out_dims, res
+
+    def reduce_op(self, fn, dims, vals, der, has_dim, dim):
+        """fn(expr) or fn(expr, dim) for an expression of extents dims (None: invalid).  Order of the tests as in
+        reduce.h: (rank 1 with a dimension argument: dim must be 0) - valid expression - empty - dim < rank.
+        Returns ('elem', value, der) or ('view', dims, values, ders)."""
+        rank = len(dims) if dims is not None else None
+        if has_dim and self.rank_hint == 1 and dim != 0:
+            raise Exc("invalid_dimension")
+        if dims is None:
+            raise Exc("size_mismatch")
+        if not has_dim or rank == 1:
+            if dims[0] == 0:
+                return ("elem", 0, {} if der is not None else None)
+            v, d = self.reduce_list(fn, vals, der)
+            return ("elem", v, d)
+        if dims[0] == 0:
+            return ("view", [0] * (rank - 1), [], [])
+        if dim >= rank or dim < 0:
+            raise Exc("invalid_dimension")
+        out_dims, strips = self.strips(dims, dim)
+        rv, rd = [], []
+        for ix in strips:
+            v, d = self.reduce_list(fn, [vals[i] for i in ix], [der[i] for i in ix] if der is not None else None)
+            rv.append(v); rd.append(d)
+        return ("view", out_dims, rv, rd)
+
+    # -- one op; returns the status string
     def apply(self, w):
         c = w[0]
         a = self.a
+        if c == "rec":
+            for x in a.values():
+                if x.ty == "a":
+                    x.vars = list(range(self.nvar, self.nvar + len(x.vals)))
+                    self.nvar += len(x.vals)
+                    x.der = [{v: 1} for v in x.vars]
+                    x.inp = True
+            return "ok"
         if c == "new":
             k, ty, seed, dims = int(w[1]), w[2], int(w[3]), [int(x) for x in w[4:]]
-            ext = self.new_extents(dims)
+            if ty in "st":
+                ext = self.square_extent(dims)
+            elif ty == "f":
+                if dims not in ([3], [2, 3]):
+                    raise RuntimeError("fixed extents")
+                ext = dims
+            else:
+                ext = self.new_extents(dims)
             a[k] = self.fresh(ty, ext, seed)
-            return "ok", [k]
+            return "ok"
+        if c in ("red", "redd", "loc"):
+            return self.apply_fnfirst(w)
         k = int(w[1])
         t = a[k]
         if c in ("resize", "resized", "resizerm", "resizecm"):
             seed, dims = int(w[2]), [int(x) for x in w[3:]]
+            if t.ty in "st":
+                a[k] = self.fresh(t.ty, self.square_extent(dims), seed)
+                return "ok"
             if c == "resize" and any(d < 0 for d in dims):
                 raise Exc("invalid_dimension")
             a[k] = self.fresh(t.ty, self.new_extents(dims), seed)
-            return "ok", [k]
+            return "ok"
         if c == "asg":
             x, y = a[int(w[2])], a[int(w[4])]
-            f = {"add": lambda p, q: p + q, "sub": lambda p, q: p - q, "mul": lambda p, q: p * q}[w[3]]
-            dims = x.dims if x.dims == y.dims else None
-            a[k] = self.assign(t, dims, [f(p, q) for p, q in zip(x.vals, y.vals)])
-            return "ok", [k, int(w[2]), int(w[4])]
+            dims, vals, der = self.binexpr(w[3], x, y)
+            a[k] = self.assign(t, dims, vals, der)
+            return "ok"
         if c == "cp":
             x = a[int(w[2])]
-            a[k] = self.assign(t, x.dims, x.vals)
-            return "ok", [k, int(w[2])]
+            a[k] = self.assign(t, x.dims, x.vals, [dict(d) for d in x.der] if x.der is not None else None)
+            return "ok"
         if c in ("cadd", "csub", "cmul"):
             x = a[int(w[2])]
-            f = {"cadd": lambda p, q: p + q, "csub": lambda p, q: p - q, "cmul": lambda p, q: p * q}[c]
-            dims = t.dims if t.dims == x.dims else None
-            a[k] = self.assign(t, dims, [f(p, q) for p, q in zip(t.vals, x.vals)])
-            return "ok", [k, int(w[2])]
+            dims, vals, der = self.binexpr(c[1:], t, x) if t.ty == x.ty else self.binexpr(c[1:], PyArr("d", t.dims, t.vals), x)
+            a[k] = self.assign(t, dims, vals, der)
+            return "ok"
         if c == "where":
             m, x = a[int(w[2])], a[int(w[3])]
             if m.dims != t.dims or x.dims != t.dims:
                 raise Exc("size_mismatch")
-            a[k] = PyArr(t.ty, t.dims, [xv if mv > 0 else tv for tv, mv, xv in zip(t.vals, m.vals, x.vals)])
-            return "ok", [k, int(w[2]), int(w[3])]
+            vals = [xv if mv > 0 else tv for tv, mv, xv in zip(t.vals, m.vals, x.vals)]
+            der = None
+            if t.ty == "a":
+                der = [dict(dx) if mv > 0 else dt for dt, mv, dx in zip(t.der, m.vals, x.der)]
+            a[k] = PyArr(t.ty, t.dims, vals, der, t.inp, t.vars)
+            return "ok"
+        if c == "wherex":
+            m1, m2, x, y = (a[int(q)] for q in w[2:6])
+            if m1.dims != m2.dims or m1.dims != t.dims:        # the mask must be a valid expression of the target's size
+                raise Exc("size_mismatch")
+            dims, vals, _ = self.binexpr("add", x, y)
+            if dims is None or dims != t.dims:
+                raise Exc("size_mismatch")
+            a[k] = PyArr(t.ty, t.dims, [v if p > q else tv for tv, p, q, v in zip(t.vals, m1.vals, m2.vals, vals)])
+            return "ok"
+        if c == "eor":
+            # A.where(M) = either_or(C, D).  The headers assign D where the mask is false, then C where it is true, each
+            # with its own size test: a wrongly sized C is reported after D has been stored (noted as an observation)
+            m, cc, dd = (a[int(q)] for q in w[2:5])
+            if m.dims != t.dims:
+                raise Exc("size_mismatch")
+            if dd.dims != t.dims:
+                raise Exc("size_mismatch")
+            a[k] = t = PyArr(t.ty, t.dims, [tv if mv > 0 else dv for tv, mv, dv in zip(t.vals, m.vals, dd.vals)])
+            m, cc = a[int(w[2])], a[int(w[3])]                 # the mask / C may be the target itself
+            if cc.dims != t.dims:
+                raise Exc("size_mismatch")
+            a[k] = PyArr(t.ty, t.dims, [cv if mv > 0 else tv for tv, mv, cv in zip(t.vals, m.vals, cc.vals)])
+            return "ok"
         if c == "fill":
-            hs = [k] + [int(x[1:]) for x in w[2:] if x[0] == "a"]
             if t.empty:
                 raise Exc("empty_array")
             self.fill(k, w[2:])
-            return "ok", hs
+            return "ok"
         if c == "diag":
             o = int(w[2])
             if t.empty:
-                return "ok view[0]=", [k]
+                return "ok view[0]="
             n = t.dims[0]
             if n != t.dims[1]:
                 raise Exc("invalid_operation")
@@ -834,7 +1140,7 @@ class PyPool:
             if ln < 0:
                 raise Exc("invalid_dimension")
             v = [t.at(i, i + o) if o >= 0 else t.at(i - o, i) for i in range(ln)]
-            return "ok view[%d]=%s" % (ln, ",".join(map(str, v))), [k]
+            return view([ln], v)
         if c == "subdiag":
             ib, ie = int(w[2]), int(w[3])
             n = t.dims[0]
@@ -844,19 +1150,31 @@ class PyPool:
                 raise Exc("index_out_of_bounds")
             ln = ie - ib + 1
             v = [t.at(ib + i, ib + j) for i in range(ln) for j in range(ln)]
-            return "ok view[%dx%d]=%s" % (ln, ln, ",".join(map(str, v))), [k]
+            return view([ln, ln], v)
         if c == "inv":
             n = t.dims[0]
             if n != t.dims[1]:
                 raise Exc("invalid_operation")
             v = [t.at(j, i) for i in range(n) for j in range(n)]      # generator: signed permutation matrices only
-            return "ok view[%dx%d]=%s" % (n, n, ",".join(map(str, v))), [k]
+            return view([n, n], v)
+        if c == "solve":
+            b = a[int(w[2])]
+            n = t.dims[0]
+            if n != t.dims[1]:
+                raise Exc("invalid_operation")
+            if b.dims[0] != n:
+                raise Exc("size_mismatch")
+            # generator: signed permutation matrices only, whose inverse is the transpose
+            if b.rank == 1:
+                return view([n], [sum(t.at(q, i) * b.vals[q] for q in range(n)) for i in range(n)])
+            m = b.dims[1]
+            return view([n, m], [sum(t.at(q, i) * b.at(q, j) for q in range(n)) for i in range(n) for j in range(m)])
         if c == "link":
             x = a[int(w[2])]
             if x.empty:
                 raise Exc("empty_array")
             a[k] = x.copy()
-            return "ok", [k, int(w[2])]
+            return "ok"
         if c == "matmul":
             x, y = a[int(w[2])], a[int(w[3])]
             if x.empty or y.empty:                      # order of the two tests as in matmul.h
@@ -868,7 +1186,7 @@ class PyPool:
             P = [[sum(X[i][q] * Y[q][j] for q in range(len(Y))) for j in range(len(Y[0]))] for i in range(len(X))]
             dims = [len(P)] if y.rank == 1 else [len(P[0])] if x.rank == 1 else [len(P), len(P[0])]
             a[k] = self.assign(t, dims, [v for row in P for v in row])
-            return "ok", [k, int(w[2]), int(w[3])]
+            return "ok"
         if c == "permute":
             p0, p1 = int(w[2]), int(w[3])
             if p0 == -1 or p1 == -1:                    # "incorrect number of dimensions" comes first in the headers
@@ -878,16 +1196,19 @@ class PyPool:
             if sorted([p0, p1]) != [0, 1]:
                 raise Exc("invalid_dimension")
             if p0 == 0:
-                return "ok view[%dx%d]=%s" % (t.dims[0], t.dims[1], ",".join(map(str, t.vals))), [k]
+                return view(t.dims, t.vals)
             v = [t.at(j, i) for i in range(t.dims[1]) for j in range(t.dims[0])]
-            return "ok view[%dx%d]=%s" % (t.dims[1], t.dims[0], ",".join(map(str, v))), [k]
+            return view([t.dims[1], t.dims[0]], v)
         if c == "get":
             idx = [int(x) for x in w[2:]]
             if any(not (0 <= i < d) for i, d in zip(idx, t.dims)):
                 if not self.bounds:
                     raise RuntimeError("generator produced an unchecked out-of-range access")
                 raise Exc("index_out_of_bounds")
-            return "ok elem=%d" % (t.vals[idx[0]] if t.rank == 1 else t.at(idx[0], idx[1])), [k]
+            flat = 0
+            for i, d in zip(idx, t.dims):
+                flat = flat * d + i
+            return "ok elem=%d" % t.vals[flat]
         if c == "range":
             b, e = int(w[2]), int(w[3])
             n = t.dims[0]
@@ -898,16 +1219,143 @@ class PyPool:
             if e - b + 1 < 0:
                 raise Exc("invalid_dimension")
             v = t.vals[b:e + 1]
-            return "ok view[%d]=%s" % (len(v), ",".join(map(str, v))), [k]
+            return view([len(v)], v)
         if c == "reshape":
             r, cc = int(w[2]), int(w[3])
             if r * cc != t.dims[0] or r < 0 or cc < 0:
                 raise Exc("invalid_dimension")
-            return "ok view[%dx%d]=%s" % (r, cc, ",".join(map(str, t.vals))), [k]
+            return view([r, cc], t.vals)
         if c == "clear":
             a[k] = PyArr(t.ty, [0] * t.rank, [])
-            return "ok", [k]
+            return "ok"
+        # ---- expressions that are not assignments of a plain element-wise expression
+        if c == "find":
+            y = a[int(w[2])]
+            if t.dims != y.dims:
+                raise Exc("size_mismatch")
+            v = [i for i, (p, q) in enumerate(zip(t.vals, y.vals)) if p > q]
+            return view([len(v)], v)
+        if c == "dot":
+            y = a[int(w[2])]
+            if t.dims != y.dims:                        # "two arguments that must be rank-1 arrays of the same length"
+                raise Exc("size_mismatch")
+            return "ok elem=%d" % chk(sum(chk(p * q) for p, q in zip(t.vals, y.vals)))
+        if c == "outer":
+            x, y, z = (a[int(q)] for q in w[2:5])
+            if x.dims != y.dims:
+                raise Exc("size_mismatch")
+            if x.empty or z.empty:                      # an outer product without elements is an invalid expression
+                raise Exc("size_mismatch")
+            vals = [chk((p + q) * r) for p, q in zip(x.vals, y.vals) for r in z.vals]
+            a[k] = self.assign(t, [x.dims[0], z.dims[0]], vals)
+            return "ok"
+        if c == "spread":
+            D, n = int(w[2]), int(w[5])
+            x, y = a[int(w[3])], a[int(w[4])]
+            if x.dims != y.dims:
+                raise Exc("size_mismatch")
+            dims = x.dims[:D] + [n] + x.dims[D:]
+            if n == 0:
+                dims[0] = 0
+            if t.empty:
+                ext = self.new_extents(dims)            # resize to the extents of the expression: a negative n is refused
+            elif dims != t.dims:
+                raise Exc("size_mismatch")
+            else:
+                ext = dims
+            e = [p + q for p, q in zip(x.vals, y.vals)]
+            vals = []
+            if ext[0] != 0:
+                inner = prod(x.dims[D:])
+                for o in range(prod(x.dims[:D])):
+                    for _ in range(n):
+                        vals.extend(e[o * inner:(o + 1) * inner])
+            a[k] = PyArr(t.ty, ext, vals)
+            return "ok"
+        if c == "diagv":
+            y, o = a[int(w[2])], int(w[3])
+            if t.dims != y.dims:
+                raise Exc("size_mismatch")
+            R, C = t.dims
+            ln = min(R, C - o) if o >= 0 else min(R + o, C)
+            if ln < 0:
+                raise Exc("invalid_dimension")
+            e = [p + q for p, q in zip(t.vals, y.vals)]
+            v = [e[j * C + j + o] if o >= 0 else e[(j - o) * C + j] for j in range(ln)]
+            return view([ln], v)
+        if c == "diagm":
+            y = a[int(w[2])]
+            if t.dims != y.dims:
+                raise Exc("size_mismatch")
+            n = t.dims[0]
+            e = [p + q for p, q in zip(t.vals, y.vals)]
+            return view([n, n], [e[i] if i == j else 0 for i in range(n) for j in range(n)])
+        # ---- active arrays
+        if c == "reda":
+            x, y = a[int(w[3])], a[int(w[5])]
+            dims, vals, der = self.binexpr(w[4], x, y)
+            self.rank_hint = x.rank
+            _, v, d = self.reduce_op(w[2], dims, vals, der, False, 0)
+            if w[2] in ("mean", "norm2"):
+                raise RuntimeError("mean/norm2 of consistent active operands is outside the model")
+            if not t.empty:
+                a[k] = PyArr("a", t.dims, [v] * len(t.vals), [dict(d) for _ in t.vals], t.inp, t.vars)
+            return "ok"
+        if c == "redda":
+            x, y = a[int(w[3])], a[int(w[5])]
+            dims, vals, der = self.binexpr(w[4], x, y)
+            self.rank_hint = x.rank
+            _, od, ov, odr = self.reduce_op(w[2], dims, vals, der, True, int(w[6]))
+            nt = self.assign(t, od, ov, odr)
+            nt.inp, nt.vars = False, []                 # assignment of a temporary may exchange the storage of the target
+            a[k] = nt
+            return "ok"
+        if c == "diagva":
+            x, y, o = a[int(w[2])], a[int(w[3])], int(w[4])
+            dims, vals, der = self.binexpr("add", x, y)
+            if dims is None:
+                raise Exc("size_mismatch")
+            R, C = dims
+            ln = min(R, C - o) if o >= 0 else min(R + o, C)
+            if ln < 0:
+                raise Exc("invalid_dimension")
+            ix = [j * C + j + o if o >= 0 else (j - o) * C + j for j in range(ln)]
+            nt = self.assign(t, [ln], [vals[i] for i in ix], [der[i] for i in ix])
+            nt.inp, nt.vars = False, []
+            a[k] = nt
+            return "ok"
+        if c == "jac":
+            x = a[int(w[2])]
+            if not x.inp or x.empty or t.empty:
+                raise RuntimeError("jac outside the model")
+            return view([len(t.vals), len(x.vars)], [row.get(v, 0) for row in t.der for v in x.vars])
         raise RuntimeError("unknown op " + c)
+
+    def apply_fnfirst(self, w):
+        c, fn = w[0], w[1]
+        a = self.a
+        x, y = a[int(w[2])], a[int(w[4])]
+        if c == "loc":
+            dims, vals, _ = self.binexpr(w[3], x, y)
+            if dims is None:
+                raise Exc("size_mismatch")
+            best = 0
+            for i, v in enumerate(vals):
+                if (v < vals[best]) if fn == "minloc" else (v > vals[best]):
+                    best = i
+            return "ok elem=%d" % best
+        has_dim = c == "redd"
+        dim = int(w[5]) if has_dim else 0
+        self.rank_hint = x.rank
+        if fn in RED_BOOL:
+            dims = x.dims if x.dims == y.dims else None
+            vals = [int(p > q) for p, q in zip(x.vals, y.vals)]
+        else:
+            dims, vals, _ = self.binexpr(w[3], x, y)
+        r = self.reduce_op(fn, dims, vals, None, has_dim, dim)
+        if r[0] == "elem":
+            return "ok elem=%s" % numstr(r[1])
+        return view(r[1], r[2])
 
     def fill(self, k, items):
         """t << item << item …: objects are placed left to right, a row of objects at a time; elements written before the
@@ -943,17 +1391,16 @@ class PyPool:
     def line(self, op):
         """the line the driver must print for `op` (and performs it)"""
         w = op.split()
-        hs = [int(w[1])] + [int(x[1:]) for x in w[2:] if w[0] == "fill" and x[0] == "a"]
-        if w[0] in ("asg",):
-            hs = [int(w[1]), int(w[2]), int(w[4])]
-        elif w[0] in ("cp", "cadd", "csub", "cmul", "link"):
-            hs = [int(w[1]), int(w[2])]
-        elif w[0] in ("where", "matmul"):
-            hs = [int(w[1]), int(w[2]), int(w[3])]
+        if w[0] in ("rec", "order"):
+            if w[0] == "rec":
+                self.apply(w)
+            return "ok"
+        hs = handles_of(w)
+        act = any(h in self.a and self.a[h].ty == "a" for h in hs) or (w[0] == "new" and w[2] == "a")
         try:
-            st, hs = self.apply(w)
+            st = self.apply(w)
         except Exc as e:
-            st = "EXC " + str(e)
+            st = "EXC " + str(e) + (" rec+0+0" if act else "")     # a failed statement has pushed nothing on the recording
         seen = []
         for h in hs:
             if h not in seen:
@@ -961,93 +1408,197 @@ class PyPool:
         return st + "".join(" | %d:%s" % (h, self.a[h].show() if h in self.a else "-") for h in seen)
 
 
+SPECIAL_CLASSES = ("special_mismatch", "special_resize")
+H_DYN, H_SPEC, H_ACT = range(0, 8), range(8, 12), range(12, 20)
+
+
+class GenSkip(Exception):
+    pass
+
+
 class GenB:
-    def __init__(self, rng, bounds, want, maxdim):
+    """histories over three families of objects: passive dynamic arrays (handles 0-7, kinds d i, rank 1-4), FixedArray /
+    SymmMatrix / TridiagMatrix objects (handles 8-11, with the `special` profile) and active arrays (handles 12-19, with the
+    `active` profile, inside a recording)"""
+
+    def __init__(self, rng, bounds, want, maxdim, negdim_ok=True, profile=None):
         self.rng, self.bounds, self.want, self.maxdim = rng, bounds, want, maxdim
+        self.negdim_ok = negdim_ok
         self.pool = PyPool(bounds)
         self.ops, self.exp, self.inj = [], [], []
         self.nh = 8
+        self.busy = set()
+        self.profile = profile or ("active" if want == "active_mismatch" else "special" if want in SPECIAL_CLASSES else "dyn")
 
     def prob(self, cls):
-        return 0.5 if cls == self.want else 0.03
+        return (0.35 if self.profile == "active" else 0.5) if cls == self.want else 0.03
 
     def hit(self, cls):
         return self.rng.random() < self.prob(cls)
 
+    def derived_jacobian(self):
+        """a dependent array computed from an input of the recording, then the Jacobian with respect to that input"""
+        r = self.rng
+        P = self.pool.a
+        self.busy = set()
+        try:
+            i = self.pick(lambda b: b.inp and not b.empty, fam="a")
+            if i is None:
+                return False
+            j = self.like(P[i])
+            t = self.like(P[i], dims=[0] * P[i].rank) if r.random() < 0.6 else self.like(P[i])
+            self.emit("asg %d %d %s %d" % (t, i, r.choice(["mul", "add", "sub", "mul"]), j))
+            if r.random() < 0.5:
+                self.emit("%s %d %d" % (r.choice(["cmul", "cadd"]), t, i))
+            if r.random() < 0.4:
+                self.emit("reda %d %s %d mul %d" % (t, r.choice(["sum", "product", "minval", "maxval"]), t, j))
+            if P[t].empty or not P[i].inp or P[i].empty:
+                return False
+            ok = self.emit("jac %d %d" % (t, i))
+            if P[j].inp and not P[j].empty:
+                self.emit("jac %d %d" % (t, j))
+            return ok
+        except GenSkip:
+            return False
+
     def emit(self, op, cls=None):
         """perform on the reference pool; refuse (False) operations whose values leave the exact regime"""
         trial = self.pool.clone()
-        line = trial.line(op)
+        try:
+            line = trial.line(op)
+        except Inexact:
+            return False
         if any(abs(v) > VMAX for a in trial.a.values() for v in a.vals):
             return False
-        if cls is not None and line.startswith("EXC ") and line[4:].split(" |")[0] in DOC_B[cls]:
+        if any(abs(c) > VMAX * VMAX for a in trial.a.values() if a.der for d in a.der for c in d.values()):
+            return False
+        if cls is not None and line.startswith("EXC ") and line[4:].split(" |")[0].split()[0] in DOC_B[cls]:
             self.inj.append((len(self.ops), cls))
         line2 = self.pool.line(op)          # in place: the dictionary and the untouched arrays keep their identity
         assert line2 == line
         self.ops.append(op); self.exp.append(line)
         return True
 
-    def dim(self, lo=0):
+    def dim(self, lo=0, rank=1):
         r = self.rng
+        if rank >= 3:
+            return r.choice([lo, 1, 2, 2, 3] if rank == 3 else [lo, 1, 2, 2])
         return r.choice([lo, 1, 1, 2, 2, 3, 3, 4, 5]) if self.maxdim <= 5 else r.randint(lo, self.maxdim)
 
-    def pick(self, pred=lambda a: True):
-        c = [k for k, a in self.pool.a.items() if pred(a)]
-        return self.rng.choice(c) if c else None
+    def pick(self, pred=lambda a: True, fam="di"):
+        c = [k for k, a in self.pool.a.items() if a.ty in fam and pred(a)]
+        if not c:
+            return None
+        k = self.rng.choice(c)
+        self.busy.add(k)         # an object chosen for the current step is not overwritten by a later `like`
+        return k
+
+    def hrange(self, ty):
+        return H_DYN if ty in "di" else H_ACT if ty == "a" else H_SPEC
 
     def new_valid(self, k=None, ty=None, rank=None, dims=None):
         r = self.rng
-        k = r.randrange(self.nh) if k is None else k
-        ty = ty or r.choice("di"); rank = rank or r.choice([1, 2])
-        if dims is None:
-            dims = [self.dim() for _ in range(rank)]
-            if rank == 2 and r.random() < 0.35:
-                dims[1] = dims[0]
+        ty = ty or r.choice("di")
+        k = r.choice(list(self.hrange(ty))) if k is None else k
+        if ty == "f":
+            dims = r.choice([[3], [2, 3]])
+        elif ty in "st":
+            n = self.dim()
+            dims = [n] if r.random() < 0.7 else [n, n]
+        else:
+            rank = rank or (r.choice([1, 1, 1, 2, 2, 2, 3, 4]) if ty in "di" else r.choice([1, 2]))
+            if dims is None:
+                dims = [self.dim(rank=rank) for _ in range(rank)]
+                if rank == 2 and r.random() < 0.35:
+                    dims[1] = dims[0]
         return self.emit("new %d %s %d %s" % (k, ty, r.randint(0, 6), " ".join(map(str, dims))))
 
     def like(self, a, k=None, dims=None):
         """make (or find) another array of the kind of `a` with the given extents; returns its handle"""
         dims = a.dims if dims is None else dims
-        k2 = self.pick(lambda b: b.ty == a.ty and b.dims == list(dims) and b is not a)
-        if k2 is not None and self.rng.random() < 0.6:
+        c = [h for h, b in self.pool.a.items() if b.ty == a.ty and b.dims == list(dims) and b is not a]
+        if c and self.rng.random() < (0.85 if a.ty == "a" else 0.6):
+            k2 = self.rng.choice(c)
+            self.busy.add(k2)
             return k2
-        k2 = self.rng.randrange(self.nh) if k is None else k
-        if k2 in self.pool.a and self.pool.a[k2] is a:
-            k2 = (k2 + 1) % self.nh
-        self.emit("new %d %s %d %s" % (k2, a.ty, self.rng.randint(0, 6), " ".join(map(str, dims))))
+        hr = [h for h in self.hrange(a.ty) if h not in self.busy and not (h in self.pool.a and self.pool.a[h] is a)]
+        if not hr:
+            raise GenSkip()
+        if a.ty == "a":
+            # the inputs of the recording are kept alive (a Jacobian is requested with respect to them at the end)
+            pref = [h for h in hr if not (h in self.pool.a and self.pool.a[h].inp)]
+            if pref and self.rng.random() < 0.9:
+                hr = pref
+        k2 = self.rng.choice(hr) if k is None else k
+        self.busy.add(k2)
+        d = list(dims)
+        if a.ty in "st":
+            d = [dims[0]]
+        self.emit("new %d %s %d %s" % (k2, a.ty, self.rng.randint(0, 6), " ".join(map(str, d))))
         return k2
 
-    def other_dims(self, dims):
+    def other_dims(self, dims, square=False):
         r = self.rng
+        rank = len(dims)
         for _ in range(20):
-            d = [max(0, x + r.choice([-2, -1, 1, 2, 0])) for x in dims] if r.random() < 0.7 else [self.dim() for _ in dims]
+            if square:
+                n = max(0, dims[0] + r.choice([-2, -1, 1, 2]))
+                d = [n, n]
+            else:
+                d = [max(0, x + r.choice([-2, -1, 1, 2, 0])) for x in dims] if r.random() < 0.7 else [self.dim(rank=rank) for _ in dims]
+                if rank == 2 and d != list(dims) and r.random() < 0.15:
+                    d = [dims[1], dims[0]]              # transposed extents: same number of elements
             if 0 in d:
                 d = [0] * len(d)
             if d != list(dims):
                 return d
         return [x + 1 for x in dims]
 
+    def operands(self, a, mismatch):
+        """handles (i, j) of two arrays of the kind of a: consistent, or with different extents"""
+        i = self.like(a)
+        j = self.like(a, dims=self.other_dims(a.dims)) if mismatch else self.like(a)
+        if self.rng.random() < 0.5:
+            i, j = j, i
+        return i, j
+
     # ---------------------------------------------------------------- misuses
     def misuse(self, cls):
+        self.busy = set()
+        try:
+            return self.misuse_(cls)
+        except GenSkip:
+            return False
+
+    def valid(self):
+        self.busy = set()
+        try:
+            return self.valid_()
+        except GenSkip:
+            return False
+
+    def misuse_(self, cls):
         r = self.rng
         P = self.pool.a
         if cls == "neg_new":
-            rank = r.choice([1, 2])
-            dims = [self.dim(1) for _ in range(rank)]
+            ty = r.choice("ddiia") if self.profile == "active" else r.choice("di")
+            rank = r.choice([1, 2]) if ty == "a" else r.choice([1, 2, 2, 3, 4])
+            dims = [self.dim(1, rank) for _ in range(rank)]
             dims[r.randrange(rank)] = -r.randint(1, 9)
-            if rank == 2 and dims[0] < 0 and r.random() < 0.3:
+            if rank >= 2 and dims[0] < 0 and r.random() < 0.3:
                 dims[1] = r.choice([0, -1, 3])
-            return self.emit("new %d %s %d %s" % (r.randrange(self.nh), r.choice("di"), r.randint(0, 6), " ".join(map(str, dims))), cls)
+            return self.emit("new %d %s %d %s" % (r.choice(list(self.hrange(ty))), ty, r.randint(0, 6), " ".join(map(str, dims))), cls)
         if cls == "neg_resize":
-            k = self.pick()
+            k = self.pick(fam="dia")
             if k is None:
                 return False
             a = P[k]
-            dims = [self.dim(1) for _ in range(a.rank)]
+            dims = [self.dim(1, a.rank) for _ in range(a.rank)]
             dims[r.randrange(a.rank)] = -r.randint(1, 9)
             form = r.choice(["resize", "resized", "resizerm", "resizecm"])
-            if form == "resize" and a.rank == 2 and r.random() < 0.3:
-                dims = [0, -r.randint(1, 4)]        # the integer form validates every extent before looking for zeros
+            if form == "resize" and a.rank >= 2 and r.random() < 0.3:
+                dims = [0] * a.rank
+                dims[r.randrange(1, a.rank)] = -r.randint(1, 4)     # the integer form validates every extent before looking for zeros
             return self.emit("%s %d %d %s" % (form, k, r.randint(0, 6), " ".join(map(str, dims))), cls)
         if cls in ("expr_mismatch", "assign_mismatch", "compound_mismatch", "where_mismatch"):
             k = self.pick()
@@ -1080,13 +1631,13 @@ class GenB:
                 return False
             return self.emit("where %d %d %d" % (k, m, i), cls)
         if cls == "fill_overflow":
-            k = self.pick(lambda a: not a.empty)
+            k = self.pick(lambda a: not a.empty and a.rank <= 2)
             if k is None:
                 return False
             n = prod(P[k].dims)
             return self.emit("fill %d %s" % (k, " ".join(str(r.randint(-4, 4)) for _ in range(n + r.randint(1, 3)))), cls)
         if cls == "fill_object_overflow":
-            k = self.pick(lambda a: not a.empty)
+            k = self.pick(lambda a: not a.empty and a.rank <= 2)
             if k is None:
                 return False
             a = P[k]
@@ -1115,15 +1666,22 @@ class GenB:
                         break
             return self.emit(op, cls)
         if cls == "fill_empty":
-            k = self.pick(lambda a: a.empty)
+            k = self.pick(lambda a: a.empty and a.rank <= 2)
             if k is None:
                 self.new_valid(dims=[0] * r.choice([1, 2]))
-                k = self.pick(lambda a: a.empty)
+                k = self.pick(lambda a: a.empty and a.rank <= 2)
+                if k is None:
+                    return False
             items = [str(r.randint(-4, 4))] if r.random() < 0.6 else ["a%d" % (self.pick() or k)]
             if items[0][0] == "a" and P[int(items[0][1:])].rank > P[k].rank:
                 items = ["1"]
             return self.emit("fill %d %s" % (k, " ".join(items)), cls)
         if cls == "not_square":
+            if self.profile == "special" and r.random() < 0.4:
+                k = self.pick(lambda a: a.dims == [2, 3], fam="f")
+                if k is None:
+                    return False
+                return self.emit(r.choice(["diag %d %d" % (k, r.randint(-2, 2)), "subdiag %d %d %d" % (k, r.randint(0, 1), r.randint(0, 2))]), cls)
             k = self.pick(lambda a: a.rank == 2 and a.dims[0] != a.dims[1])
             if k is None:
                 d0 = self.dim(1)
@@ -1139,11 +1697,20 @@ class GenB:
                 return self.emit("subdiag %d %d %d" % (k, r.randint(0, 1), r.randint(0, 2)), cls)
             return self.emit("inv %d" % k, cls)
         if cls == "link_empty":
-            i = self.pick(lambda a: a.empty)
+            fam = "st" if self.profile == "special" and r.random() < 0.4 else "di"
+            i = self.pick(lambda a: a.empty, fam=fam)
             if i is None:
-                self.new_valid(dims=[0] * r.choice([1, 2]))
-                i = self.pick(lambda a: a.empty)
-            k = self.like(P[i], dims=[self.dim(1) for _ in P[i].dims]) if r.random() < 0.7 else self.like(P[i])
+                if fam == "st":
+                    self.emit("new %d %s 0 0" % (r.choice(list(H_SPEC)), r.choice("st")))
+                else:
+                    self.new_valid(dims=[0] * r.choice([1, 2, 3]))
+                i = self.pick(lambda a: a.empty, fam=fam)
+                if i is None:
+                    return False
+            if fam == "st":
+                k = self.like(P[i], dims=[self.dim(1)] * 2) if r.random() < 0.7 else self.like(P[i])
+            else:
+                k = self.like(P[i], dims=[self.dim(1, P[i].rank) for _ in P[i].dims]) if r.random() < 0.7 else self.like(P[i])
             if k == i:
                 return False
             return self.emit("link %d %d" % (k, i), cls)
@@ -1165,8 +1732,6 @@ class GenB:
                     xd = [0] * len(xd)
                 if which in ("y", "both"):
                     yd = [0] * len(yd)
-                if r.random() < 0.5 and which != "both":   # the inner extents disagree as well: emptiness is reported
-                    pass
             hx, hy, hk = r.sample(range(self.nh), 3)
             self.emit("new %d d %d %s" % (hx, r.randint(0, 6), " ".join(map(str, xd))))
             self.emit("new %d d %d %s" % (hy, r.randint(0, 6), " ".join(map(str, yd))))
@@ -1197,11 +1762,12 @@ class GenB:
                     return False
                 return self.emit("range %d %d %d" % (k, b, e), cls)
             if x < 0.6:
-                k = self.pick(lambda a: a.rank == 2 and not a.empty and a.dims[0] == a.dims[1])
+                fam = "st" if self.profile == "special" and r.random() < 0.5 else "di"
+                k = self.pick(lambda a: a.rank == 2 and a.dims[0] == a.dims[1] and (fam == "st" or not a.empty), fam=fam)
                 if k is None:
                     return False
                 n = P[k].dims[0]
-                if r.random() < 0.5:
+                if fam == "di" and r.random() < 0.5:
                     return self.emit("diag %d %d" % (k, r.choice([1, -1]) * (n + r.randint(1, 3))), cls)
                 ib, ie = r.choice([(-1, 0), (1, 0), (0, n), (n, n), (2, 1), (0, n + 2)])
                 return self.emit("subdiag %d %d %d" % (k, ib, ie), cls)
@@ -1229,33 +1795,304 @@ class GenB:
             pos = r.randrange(a.rank)
             idx[pos] = r.choice([-1, a.dims[pos], a.dims[pos] + r.randint(1, 3), -r.randint(2, 5)])
             return self.emit("get %d %s" % (k, " ".join(map(str, idx))), cls)
+        # ------------------------------------------------ mismatches inside expressions that are not assignments
+        if cls == "reduce_mismatch":
+            k = self.pick()
+            if k is None:
+                return False
+            a = P[k]
+            i, j = self.operands(a, True)
+            boolean = r.random() < 0.3
+            fn = r.choice(RED_BOOL) if boolean else r.choice(RED_NUM if a.ty == "d" else ["sum", "product", "minval", "maxval"])
+            op = "gt" if boolean else r.choice(["add", "mul"])
+            if r.random() < 0.5 or (boolean and a.rank == 1):
+                return self.emit("red %s %d %s %d" % (fn, i, op, j), cls)
+            dim = r.randrange(a.rank) if r.random() < 0.8 or a.rank == 1 else r.choice([a.rank, a.rank + 1])   # the size test comes first
+            return self.emit("redd %s %d %s %d %d" % (fn, i, op, j, dim), cls)
+        if cls == "reduce_dim_invalid":
+            k = self.pick(lambda a: not a.empty or a.rank == 1)
+            if k is None:
+                return False
+            a = P[k]
+            i, j = self.operands(a, a.rank == 1 and r.random() < 0.3)     # rank 1: the dimension argument is tested first
+            boolean = r.random() < 0.3 and a.rank > 1
+            fn = r.choice(RED_BOOL) if boolean else r.choice(RED_NUM if a.ty == "d" else ["sum", "product", "minval", "maxval"])
+            op = "gt" if boolean else r.choice(["add", "mul"])
+            cands = [a.rank, a.rank + 1, a.rank + r.randint(2, 40), 2 ** 31 - 1]
+            if a.rank == 1 or self.negdim_ok:
+                cands += [-1, -1, -r.randint(2, 9), -2 ** 31]
+            return self.emit("redd %s %d %s %d %d" % (fn, i, op, j, r.choice(cands)), cls)
+        if cls == "loc_mismatch":
+            k = self.pick(lambda a: a.rank == 1)
+            if k is None:
+                self.new_valid(rank=1)
+                k = self.pick(lambda a: a.rank == 1)
+                if k is None:
+                    return False
+            i, j = self.operands(P[k], True)
+            x = r.random()
+            if x < 0.4:
+                return self.emit("loc %s %d %s %d" % (r.choice(["minloc", "maxloc"]), i, r.choice(["add", "sub", "mul"]), j), cls)
+            if x < 0.7:
+                return self.emit("find %d %d" % (i, j), cls)
+            return self.emit("dot %d %d" % (i, j), cls)
+        if cls == "expand_mismatch":
+            x = r.random()
+            ty = r.choice("di")
+            if x < 0.3:                                   # outer_product(X + Y, Z)
+                kx = self.pick(lambda a: a.rank == 1 and a.ty == ty)
+                if kx is None:
+                    return False
+                how = r.choice(["operands", "operands", "target", "empty"])
+                i, j = self.operands(P[kx], how == "operands")
+                z = self.like(P[kx], dims=[0] if how == "empty" and r.random() < 0.5 else [self.dim(1)])
+                if how == "empty" and not P[z].empty:
+                    i = j = self.like(P[kx], dims=[0])
+                n0, n1 = P[i].dims[0], P[z].dims[0]
+                proto = PyArr(ty, [n0, n1], [])
+                if how == "target":
+                    tgt = self.like(proto, dims=self.other_dims([max(1, n0), max(1, n1)]))
+                    if P[tgt].empty:
+                        return False
+                else:
+                    tgt = self.like(proto, dims=r.choice([[0, 0], [n0, n1] if n0 * n1 else [0, 0]]))
+                return self.emit("outer %d %d %d %d" % (tgt, i, j, z), cls)
+            if x < 0.65:                                  # spread<D>(X + Y, n)
+                kx = self.pick(lambda a: a.rank <= 2 and a.ty == ty)
+                if kx is None:
+                    return False
+                a = P[kx]
+                D = r.randint(0, a.rank)
+                how = r.choice(["operands", "operands", "target", "negative"])
+                i, j = self.operands(a, how == "operands")
+                n = -r.randint(1, 4) if how == "negative" else self.dim(1, a.rank + 1)
+                ed = P[i].dims[:D] + [n] + P[i].dims[D:]
+                proto = PyArr(ty, ed, [])
+                if how == "target":
+                    tgt = self.like(proto, dims=self.other_dims([max(1, d) for d in ed]))
+                    if P[tgt].empty:
+                        return False
+                elif how == "negative":
+                    tgt = self.like(proto, dims=[0] * len(ed) if r.random() < 0.6 else [max(1, abs(d)) for d in ed])
+                else:
+                    tgt = self.like(proto, dims=r.choice([[0] * len(ed), ed if 0 not in ed else [0] * len(ed)]))
+                return self.emit("spread %d %d %d %d %d" % (tgt, D, i, j, n), cls)
+            if x < 0.85:                                  # diag_vector(X + Y, o)
+                kx = self.pick(lambda a: a.rank == 2 and a.ty == ty)
+                if kx is None:
+                    return False
+                i, j = self.operands(P[kx], True)
+                return self.emit("diagv %d %d %d" % (i, j, r.randint(-2, 2)), cls)
+            kx = self.pick(lambda a: a.rank == 1 and a.ty == ty)
+            if kx is None:
+                return False
+            i, j = self.operands(P[kx], True)
+            return self.emit("diagm %d %d" % (i, j), cls)
+        if cls == "wherex_mismatch":
+            k = self.pick()
+            if k is None:
+                return False
+            a = P[k]
+            which = r.choice(["mask", "mask", "rhs", "rhs", "mask-target", "rhs-target"])
+            m1, m2 = self.operands(a, which == "mask")
+            i, j = self.operands(a, which == "rhs")
+            if which == "mask-target":
+                m1 = m2 = self.like(a, dims=self.other_dims(a.dims))
+            if which == "rhs-target":
+                i = j = self.like(a, dims=self.other_dims(a.dims))
+            return self.emit("wherex %d %d %d %d %d" % (k, m1, m2, i, j), cls)
+        if cls == "eor_mismatch":
+            k = self.pick(lambda a: not a.empty or r.random() < 0.2)
+            if k is None:
+                return False
+            a = P[k]
+            which = r.choice(["mask", "true", "true", "false", "false", "both"])
+            m = self.like(a, dims=self.other_dims(a.dims)) if which == "mask" else self.like(a)
+            c_ = self.like(a, dims=self.other_dims(a.dims)) if which in ("true", "both") else self.like(a)
+            d_ = self.like(a, dims=self.other_dims(a.dims)) if which in ("false", "both") else self.like(a)
+            if m == k:
+                return False
+            return self.emit("eor %d %d %d %d" % (k, m, c_, d_), cls)
+        if cls == "solve_invalid":
+            hA, hb = r.sample(range(self.nh), 2)
+            n = self.dim(1)
+            nonsq = r.random() < 0.5
+            ad = [n, n + r.choice([1, 2, -1]) if n > 1 else n + 1] if nonsq else [n, n]
+            if nonsq and r.random() < 0.5:
+                ad.reverse()
+            brank = r.choice([1, 2])
+            bn = ad[0] if (nonsq and r.random() < 0.5) else ad[0] + r.choice([1, 2, -1] if ad[0] > 1 else [1, 2])
+            bd = [bn] if brank == 1 else [bn, self.dim(1)]
+            self.emit("new %d d %d %s" % (hA, r.randint(0, 6), " ".join(map(str, ad))))
+            self.emit("new %d d %d %s" % (hb, r.randint(0, 6), " ".join(map(str, bd))))
+            return self.emit("solve %d %d" % (hA, hb), cls)
+        # ------------------------------------------------ FixedArray / SymmMatrix / TridiagMatrix
+        if cls == "special_resize":
+            x = r.random()
+            ty = r.choice("st")
+            bad = r.choice(["%d" % -r.randint(1, 9), "%d %d" % (self.dim(1), self.dim(1) + r.choice([1, 2])),
+                            "%d %d" % (-r.randint(1, 4), -r.randint(1, 4)), "%d 0" % self.dim(1), "0 %d" % -r.randint(1, 3)])
+            if x < 0.4:
+                return self.emit("new %d %s %d %s" % (r.choice(list(H_SPEC)), ty, r.randint(0, 6), bad), cls)
+            k = self.pick(fam="st")
+            if k is None:
+                return False
+            return self.emit("resize %d %d %s" % (k, r.randint(0, 6), bad), cls)
+        if cls == "special_mismatch":
+            k = self.pick(fam="fst")
+            if k is None:
+                return False
+            t = P[k]
+            proto = PyArr("d", t.dims, [])
+            x = r.random()
+            if t.ty in "st" and x < 0.3:
+                # element-wise expression mixing special matrices of different sizes
+                i = self.like(t, dims=[max(1, t.dims[0])] * 2)
+                j = self.like(t, dims=self.other_dims(P[i].dims, square=True))
+                if r.random() < 0.5:
+                    i, j = j, i
+                tgt = r.choice([k, self.like(PyArr("d", P[i].dims, []))])
+                return self.emit("asg %d %d %s %d" % (tgt, i, r.choice(["add", "sub", "mul"]), j), cls)
+            if t.ty in "st" and x < 0.4:
+                i = self.like(t, dims=self.other_dims([max(1, t.dims[0])] * 2, square=True))
+                if t.empty or P[i].empty:
+                    return False
+                return self.emit(r.choice(["cp %d %d", "cadd %d %d"]) % (k, i), cls)
+            if t.ty == "f" and x < 0.25:
+                # a FixedArray operand next to a dynamic array of another size
+                j = self.like(proto, dims=self.other_dims(t.dims))
+                tgt = self.like(proto, dims=r.choice([t.dims, [0] * t.rank]))
+                return self.emit("asg %d %d %s %d" % (tgt, k, r.choice(["add", "sub", "mul"]), j), cls)
+            if t.ty == "f" and x < 0.45:
+                which = r.choice(["mask", "rhs"])
+                m = self.like(proto, dims=self.other_dims(t.dims)) if which == "mask" else self.like(proto)
+                i = self.like(proto, dims=self.other_dims(t.dims)) if which == "rhs" else self.like(proto)
+                return self.emit("where %d %d %d" % (k, m, i), cls)
+            # a wrongly sized expression of dynamic arrays assigned to the special target
+            if t.ty in "st":
+                base = [max(1, t.dims[0])] * 2
+                od = self.other_dims(base, square=r.random() < 0.5)
+                if t.empty:
+                    od = self.other_dims(base)
+                    if od[0] == od[1]:
+                        return False
+            else:
+                od = self.other_dims(t.dims)
+            how = r.choice(["operands", "target", "target"])
+            if how == "operands":
+                i = self.like(proto, dims=od if not t.empty else [2, 2])
+                j = self.like(proto, dims=t.dims if not t.empty else [2, 3])
+                if P[i].dims == P[j].dims:
+                    return False
+                if r.random() < 0.5:
+                    i, j = j, i
+                return self.emit("asg %d %d %s %d" % (k, i, r.choice(["add", "sub", "mul"]), j), cls)
+            i = self.like(proto, dims=od)
+            form = r.choice(["asg", "cp", "comp"])
+            if form == "asg":
+                return self.emit("asg %d %d %s %d" % (k, i, r.choice(["add", "sub", "mul"]), self.like(P[i])), cls)
+            if form == "cp":
+                return self.emit("cp %d %d" % (k, i), cls)
+            return self.emit("%s %d %d" % (r.choice(["cadd", "csub", "cmul"]), k, i), cls)
+        # ------------------------------------------------ active arrays
+        if cls == "active_mismatch":
+            k = self.pick(fam="a")
+            if k is None:
+                return False
+            a = P[k]
+            x = r.random()
+            if x < 0.2:
+                i, j = self.operands(a, True)
+                tgt = r.choice([k, i, j, self.like(a, dims=[0] * a.rank)])
+                return self.emit("asg %d %d %s %d" % (tgt, i, r.choice(["add", "sub", "mul"]), j), cls)
+            if x < 0.35:
+                if a.empty:
+                    return False
+                i = self.like(a, dims=self.other_dims(a.dims))
+                if r.random() < 0.5:
+                    return self.emit("cp %d %d" % (k, i), cls)
+                return self.emit("%s %d %d" % (r.choice(["cadd", "csub", "cmul"]), k, i), cls)
+            if x < 0.5:
+                which = r.choice(["mask", "rhs"])
+                m = self.like(a, dims=self.other_dims(a.dims)) if which == "mask" else self.like(a)
+                i = self.like(a, dims=self.other_dims(a.dims)) if which == "rhs" else self.like(a)
+                return self.emit("where %d %d %d" % (k, m, i), cls)
+            if x < 0.7:
+                i, j = self.operands(a, True)
+                tgt = self.pick(fam="a")
+                return self.emit("reda %d %s %d %s %d" % (tgt, r.choice(RED_NUM), i, r.choice(["add", "mul"]), j), cls)
+            kx = self.pick(lambda b: b.rank == 2, fam="a")
+            tgt = self.pick(lambda b: b.rank == 1, fam="a")
+            if kx is None or tgt is None:
+                return False
+            m = P[kx]
+            if x < 0.9:
+                how = r.choice(["operands", "operands", "dim", "target"])
+                i, j = self.operands(m, how == "operands")
+                dim = r.randrange(2)
+                if how == "dim":
+                    if m.empty:
+                        return False
+                    dim = r.choice([2, 3, 17] + ([-1, -2] if self.negdim_ok else []))
+                if how == "target":
+                    if m.empty:
+                        return False
+                    tgt = self.like(P[tgt], dims=self.other_dims([m.dims[1 - dim]]))
+                    if P[tgt].empty:
+                        return False
+                return self.emit("redda %d %s %d add %d %d" % (tgt, r.choice(["sum", "product", "minval", "maxval"]), i, j, dim), cls)
+            how = r.choice(["operands", "operands", "target"])
+            i, j = self.operands(m, how == "operands")
+            o = r.randint(-1, 1)
+            if how == "target":
+                R, C = m.dims
+                ln = min(R, C - o) if o >= 0 else min(R + o, C)
+                if ln < 0:
+                    return False
+                tgt = self.like(P[tgt], dims=self.other_dims([ln]))
+                if P[tgt].empty:
+                    return False
+            return self.emit("diagva %d %d %d %d" % (tgt, i, j, o), cls)
         raise RuntimeError(cls)
 
     # ---------------------------------------------------------------- valid steps
-    def valid(self):
+    def valid_(self):
         r = self.rng
+        if self.profile == "special" and r.random() < 0.45:
+            return self.valid_special()
+        if self.profile == "active" and r.random() < 0.6:
+            return self.valid_active()
         P = self.pool.a
         x = r.random()
-        if x < 0.14 or len(P) < 3:
+        if x < 0.10 or len([1 for a in P.values() if a.ty in "di"]) < 3:
             return self.new_valid()
         k = self.pick()
         a = P[k]
-        if x < 0.20:
-            dims = [self.dim() for _ in a.dims]
+        if x < 0.14:
+            dims = [self.dim(rank=a.rank) for _ in a.dims]
             return self.emit("%s %d %d %s" % (r.choice(["resize", "resized", "resizerm", "resizecm"]), k, r.randint(0, 6), " ".join(map(str, dims))))
-        if x < 0.32:
+        if x < 0.22:
             i = self.like(a); j = self.like(a) if r.random() < 0.7 else k
             tgt = r.choice([k, self.like(a), self.like(a, dims=[0] * a.rank)])
             return self.emit("asg %d %d %s %d" % (tgt, i, r.choice(["add", "sub", "mul", "add"]), j))
-        if x < 0.37:
+        if x < 0.25:
             return self.emit("cp %d %d" % (self.like(a) if r.random() < 0.6 else self.like(a, dims=[0] * a.rank), k))
-        if x < 0.44:
+        if x < 0.30:
             return self.emit("%s %d %d" % (r.choice(["cadd", "csub", "cmul"]), k, self.like(a)))
-        if x < 0.51:
+        if x < 0.34:
             m = self.pick(lambda b: b.dims == a.dims)
             return self.emit("where %d %d %d" % (k, m, self.like(a)))
-        if x < 0.62:
-            if a.empty:
+        if x < 0.38:
+            m1, m2 = self.operands(a, False)
+            i, j = self.operands(a, False)
+            return self.emit("wherex %d %d %d %d %d" % (k, m1, m2, i, j))
+        if x < 0.42:
+            m = self.like(a)
+            if m == k:
+                return False
+            return self.emit("eor %d %d %d %d" % (k, m, self.like(a), self.like(a)))
+        if x < 0.50:
+            if a.empty or a.rank > 2:
                 return False
             n = prod(a.dims)
             if r.random() < 0.5:
@@ -1268,7 +2105,7 @@ class GenB:
             if self.pool.clone().line(op).startswith("EXC"):
                 return False
             return self.emit(op)
-        if x < 0.68:
+        if x < 0.54:
             k = self.pick(lambda b: b.rank == 2 and b.dims[0] == b.dims[1])
             if k is None:
                 return False
@@ -1277,19 +2114,23 @@ class GenB:
                 return self.emit("diag %d %d" % (k, r.randint(-n, n)))
             ib = r.randint(0, n - 1)
             return self.emit("subdiag %d %d %d" % (k, ib, r.randint(ib, n - 1)))
-        if x < 0.71:
+        if x < 0.58:
             n = r.choice([1, 2, 2, 3, 4])
             k = r.randrange(self.nh)
             perm = list(range(n)); r.shuffle(perm)
             ent = [(r.choice([1, -1]) if perm[i] == j else 0) for i in range(n) for j in range(n)]
             self.emit("new %d d 0 %d %d" % (k, n, n))
             self.emit("fill %d %s" % (k, " ".join(map(str, ent))))
-            return self.emit("inv %d" % k)
-        if x < 0.75:
+            if r.random() < 0.5:
+                return self.emit("inv %d" % k)
+            hb = (k + 1) % self.nh
+            self.emit("new %d d %d %s" % (hb, r.randint(0, 6), "%d" % n if r.random() < 0.5 else "%d %d" % (n, self.dim(1))))
+            return self.emit("solve %d %d" % (k, hb))
+        if x < 0.61:
             if a.empty:
                 return False
             return self.emit("link %d %d" % (self.like(a, dims=self.other_dims(a.dims)) if r.random() < 0.5 else self.like(a), k))
-        if x < 0.83:
+        if x < 0.66:
             form = r.choice([(2, 1), (2, 2), (1, 2)])
             inner, m, n = self.dim(1), self.dim(1), self.dim(1)
             xd = [m, inner] if form[0] == 2 else [inner]
@@ -1300,16 +2141,16 @@ class GenB:
             od = ([m] if form == (2, 1) else [n] if form == (1, 2) else [m, n])
             self.emit("new %d d %d %s" % (hk, r.randint(0, 6), " ".join(map(str, od if r.random() < 0.5 else [0] * len(od)))))
             return self.emit("matmul %d %d %d" % (hk, hx, hy))
-        if x < 0.87:
+        if x < 0.68:
             k = self.pick(lambda b: b.rank == 2 and not b.empty)
             if k is None:
                 return False
             return self.emit("permute %d %s" % (k, r.choice(["0 1", "1 0"])))
-        if x < 0.92:
+        if x < 0.71:
             if a.empty:
                 return False
             return self.emit("get %d %s" % (k, " ".join(str(r.randint(0, d - 1)) for d in a.dims)))
-        if x < 0.96:
+        if x < 0.74:
             k = self.pick(lambda b: b.rank == 1 and not b.empty)
             if k is None:
                 return False
@@ -1320,8 +2161,160 @@ class GenB:
             divs = [d for d in range(1, n + 1) if n % d == 0]
             d = r.choice(divs)
             return self.emit("reshape %d %d %d" % (k, d, n // d))
-        if x < 0.98:
+        if x < 0.84:
+            # reductions of consistent operands (also empty ones), whole and along a dimension
+            i, j = self.operands(a, False)
+            boolean = r.random() < 0.3
+            fn = r.choice(RED_BOOL) if boolean else r.choice(RED_NUM if a.ty == "d" else ["sum", "product", "minval", "maxval"])
+            op = "gt" if boolean else r.choice(["add", "mul"])
+            if r.random() < 0.45 or (boolean and a.rank == 1):
+                return self.emit("red %s %d %s %d" % (fn, i, op, j))
+            return self.emit("redd %s %d %s %d %d" % (fn, i, op, j, r.randrange(a.rank)))
+        if x < 0.89:
+            k = self.pick(lambda b: b.rank == 1)
+            if k is None:
+                return False
+            i, j = self.operands(P[k], False)
+            y = r.random()
+            if y < 0.3:
+                return self.emit("loc %s %d %s %d" % (r.choice(["minloc", "maxloc"]), i, r.choice(["add", "sub", "mul"]), j))
+            if y < 0.5:
+                return self.emit("find %d %d" % (i, j))
+            if y < 0.7:
+                return self.emit("dot %d %d" % (i, j))
+            if y < 0.85:
+                return self.emit("diagm %d %d" % (i, j))
+            z = self.like(P[k], dims=[self.dim(1)])
+            n0, n1 = P[i].dims[0], P[z].dims[0]
+            if n0 == 0:
+                return False
+            tgt = self.like(PyArr(P[k].ty, [n0, n1], []), dims=r.choice([[0, 0], [n0, n1]]))
+            return self.emit("outer %d %d %d %d" % (tgt, i, j, z))
+        if x < 0.94:
+            k = self.pick(lambda b: b.rank <= 2)
+            if k is None:
+                return False
+            a = P[k]
+            if r.random() < 0.35 and a.rank == 2:
+                i, j = self.operands(a, False)
+                R, C = a.dims
+                return self.emit("diagv %d %d %d" % (i, j, r.randint(-R, C) if R else 0))
+            D = r.randint(0, a.rank)
+            i, j = self.operands(a, False)
+            n = self.dim(0, a.rank + 1)
+            ed = a.dims[:D] + [n] + a.dims[D:]
+            tgt = self.like(PyArr(a.ty, ed, []), dims=r.choice([[0] * len(ed), ed if 0 not in ed else [0] * len(ed)]))
+            return self.emit("spread %d %d %d %d %d" % (tgt, D, i, j, n))
+        if x < 0.97:
             return self.emit_order()
+        return self.emit("clear %d" % k)
+
+    def valid_special(self):
+        r = self.rng
+        P = self.pool.a
+        x = r.random()
+        if x < 0.2 or len([1 for a in P.values() if a.ty in "fst"]) < 2:
+            return self.new_valid(ty=r.choice("fsstt"))
+        k = self.pick(fam="fst")
+        t = P[k]
+        proto = PyArr("d", t.dims if not t.empty else [self.dim(1)] * 2, [])
+        if x < 0.3 and t.ty in "st":
+            n = self.dim()
+            return self.emit("resize %d %d %s" % (k, r.randint(0, 6), "%d" % n if r.random() < 0.6 else "%d %d" % (n, n)))
+        if x < 0.5:
+            i = self.like(proto); j = self.like(proto)
+            return self.emit("asg %d %d %s %d" % (k, i, r.choice(["add", "sub", "mul"]), j))
+        if x < 0.6:
+            if t.ty == "f":
+                j = self.like(proto)
+                tgt = self.like(proto, dims=r.choice([t.dims, [0] * t.rank]))
+                return self.emit("asg %d %d %s %d" % (tgt, k, r.choice(["add", "sub", "mul"]), j))
+            i = self.like(t, dims=proto.dims); j = self.like(t, dims=proto.dims)
+            tgt = r.choice([k, self.like(proto), self.like(proto, dims=[0, 0])])
+            if tgt == k and not t.empty and t.dims != proto.dims:
+                return False
+            return self.emit("asg %d %d %s %d" % (tgt, i, r.choice(["add", "sub", "mul"]), j))
+        if x < 0.7:
+            i = self.like(proto)
+            return self.emit("%s %d %d" % (r.choice(["cp", "cadd", "csub", "cmul"]) if not t.empty else "cp", k, i))
+        if x < 0.78:
+            if t.ty == "f":
+                return self.emit("where %d %d %d" % (k, self.like(proto), self.like(proto)))
+            if t.empty:
+                return False
+            n = t.dims[0]
+            ib = r.randint(0, n - 1)
+            return self.emit("subdiag %d %d %d" % (k, ib, r.randint(ib, n - 1)))
+        if x < 0.86 and t.ty in "st":
+            if t.empty:
+                return False
+            return self.emit("link %d %d" % (self.like(t, dims=self.other_dims(t.dims, square=True)) if r.random() < 0.5 else self.like(t), k))
+        if x < 0.92 and t.ty in "st":
+            i = self.like(t)
+            if t.empty:
+                return False
+            return self.emit(r.choice(["cp %d %d", "cadd %d %d", "cmul %d %d"]) % (k, i))
+        if x < 0.96 and t.ty in "st":
+            return self.emit("clear %d" % k)
+        return self.new_valid(ty=r.choice("fst"))
+
+    def valid_active(self):
+        r = self.rng
+        P = self.pool.a
+        x = r.random()
+        nact = len([1 for a in P.values() if a.ty == "a"])
+        if x < 0.04 or nact < 3:
+            return self.new_valid(ty="a")
+        k = self.pick(lambda b: not b.empty, fam="a") if r.random() < 0.85 else self.pick(fam="a")
+        if k is None:
+            k = self.pick(fam="a")
+        a = P[k]
+        if x < 0.07:
+            self.ops.append("rec"); self.exp.append(self.pool.line("rec"))
+            return True
+        if x < 0.15:
+            return self.derived_jacobian()
+        if x < 0.18:
+            dims = [self.dim(rank=a.rank) for _ in a.dims]
+            return self.emit("%s %d %d %s" % (r.choice(["resize", "resized", "resizerm", "resizecm"]), k, r.randint(0, 6), " ".join(map(str, dims))))
+        if x < 0.36:
+            i = self.like(a); j = self.like(a) if r.random() < 0.7 else k
+            tgt = r.choice([k, self.like(a), self.like(a, dims=[0] * a.rank)])
+            return self.emit("asg %d %d %s %d" % (tgt, i, r.choice(["add", "sub", "mul", "add"]), j))
+        if x < 0.41:
+            return self.emit("cp %d %d" % (self.like(a) if r.random() < 0.6 else self.like(a, dims=[0] * a.rank), k))
+        if x < 0.48:
+            return self.emit("%s %d %d" % (r.choice(["cadd", "csub", "cmul"]), k, self.like(a)))
+        if x < 0.54:
+            m = self.pick(lambda b: b.dims == a.dims, fam="a")
+            return self.emit("where %d %d %d" % (k, m, self.like(a)))
+        if x < 0.64:
+            i, j = self.operands(a, False)
+            tgt = self.pick(fam="a")
+            return self.emit("reda %d %s %d %s %d" % (tgt, r.choice(["sum", "product", "minval", "maxval"]), i, r.choice(["add", "mul"]), j))
+        if x < 0.74:
+            kx = self.pick(lambda b: b.rank == 2, fam="a")
+            tg = self.pick(lambda b: b.rank == 1, fam="a")
+            if kx is None or tg is None:
+                return False
+            m = P[kx]
+            i, j = self.operands(m, False)
+            if r.random() < 0.6:
+                dim = r.randrange(2)
+                od = [0] if m.empty else [m.dims[1 - dim]]
+                tgt = self.like(P[tg], dims=r.choice([od, [0]]))
+                return self.emit("redda %d %s %d add %d %d" % (tgt, r.choice(["sum", "product", "minval", "maxval"]), i, j, dim))
+            R, C = m.dims
+            o = r.randint(-R, C) if R else 0
+            ln = min(R, C - o) if o >= 0 else min(R + o, C)
+            tgt = self.like(P[tg], dims=r.choice([[max(ln, 0)], [0]]))
+            return self.emit("diagva %d %d %d %d" % (tgt, i, j, o))
+        if x < 0.97:
+            i = self.pick(lambda b: b.inp and not b.empty, fam="a")
+            kk = self.pick(lambda b: not b.empty, fam="a")
+            if i is None or kk is None:
+                return False
+            return self.emit("jac %d %d" % (kk, i))
         return self.emit("clear %d" % k)
 
     def emit_order(self):
@@ -1330,27 +2323,191 @@ class GenB:
         return True
 
 
-def gen_case_b(rng, bounds, want, maxdim=5):
+def gen_case_b(rng, bounds, want, maxdim=5, negdim_ok=True, profile=None):
     for _attempt in range(300):
-        g = GenB(rng, bounds, want, maxdim)
+        g = GenB(rng, bounds, want, maxdim, negdim_ok, profile)
         g.ops.append("cfg %d" % (1 if bounds else 0)); g.exp.append("cfg")
         for _ in range(rng.randint(3, 5)):
             g.new_valid()
-        classes = [c for c in B_CLASSES if bounds or c != "index_oob"]
+        if g.profile == "special":
+            for ty in "fst":
+                g.new_valid(ty=ty)
+        if g.profile == "active":
+            # the inputs of the recording: vectors and matrices of two shapes each, on handles of their own
+            n, rr, cc = rng.randint(1, 4), rng.randint(1, 3), rng.randint(1, 3)
+            shapes = [[n], [n], [n + rng.choice([1, 2])], [rr, cc], [rr, cc], [cc + 1, rr] if rng.random() < 0.5 else [rr, cc]]
+            for h, d in zip(list(H_ACT), shapes):
+                g.emit("new %d a %d %s" % (h, rng.randint(0, 6), " ".join(map(str, d))))
+            g.ops.append("rec"); g.exp.append(g.pool.line("rec"))
+        classes = [c for c in B_CLASSES if (bounds or c != "index_oob") and (g.profile == "active" or c != "active_mismatch")
+                   and (g.profile == "special" or c not in SPECIAL_CLASSES)]
         for _ in range(rng.randint(8, 30)):
             for c in classes:
                 if g.hit(c):
                     g.misuse(c)
             g.valid()
+        if g.profile == "active":
+            # a derivative pass over what survives of the recording
+            for _ in range(rng.randint(1, 3)):
+                g.derived_jacobian()
+                i = g.pick(lambda b: b.inp and not b.empty, fam="a")
+                kk = g.pick(lambda b: not b.empty, fam="a")
+                if i is not None and kk is not None:
+                    g.emit("jac %d %d" % (kk, i))
         if any(c == want for _, c in g.inj):
             return g.ops, {"inj": g.inj, "exp": g.exp, "bounds": bounds, "want": want}
     raise RuntimeError("generator cannot place array misuse class " + want)
 
 
+# ---------------------------------------------------------------------------------------------------------------------
+# directed sweeps (every run): each function / rank / form of the new operation kinds with consistent, disagreeing and
+# empty operands, and every out-of-range dimension argument
+# ---------------------------------------------------------------------------------------------------------------------
+def directed_cases_b(bounds, negdim_ok):
+    cases = []
+
+    def history(want, ops):
+        ops = ["cfg %d" % (1 if bounds else 0)] + ops
+        exp = reference_lines(ops, bounds)
+        assert None not in exp, (want, [o for o, e in zip(ops, exp) if e is None])
+        inj = [(i, want) for i, e in enumerate(exp) if e.startswith("EXC ") and e[4:].split()[0] in DOC_B[want]]
+        cases.append((ops, {"inj": inj, "exp": exp, "bounds": bounds, "want": "directed:" + want}))
+
+    shapes = {1: ([3], [4]), 2: ([2, 3], [3, 2]), 3: ([2, 3, 2], [2, 2, 2]), 4: ([2, 2, 3, 2], [2, 2, 2, 2])}
+    for ty in "di":
+        fns = RED_NUM if ty == "d" else ["sum", "product", "minval", "maxval"]
+        for rank, (da, db) in shapes.items():
+            ops = ["new 0 %s 1 %s" % (ty, " ".join(map(str, da))), "new 1 %s 2 %s" % (ty, " ".join(map(str, da))),
+                   "new 2 %s 3 %s" % (ty, " ".join(map(str, db))), "new 3 %s 0 %s" % (ty, " ".join(["0"] * rank))]
+            dims_bad = [rank, rank + 1, 99] + ([-1, -7] if (negdim_ok or rank == 1) else [])
+            for fn in fns + RED_BOOL:
+                op = "gt" if fn in RED_BOOL else "add"
+                ops += ["red %s 0 %s 2" % (fn, op), "red %s 0 %s 1" % (fn, op), "red %s 3 %s 3" % (fn, op), "red %s 3 %s 0" % (fn, op)]
+                if fn in RED_BOOL and rank == 1:
+                    continue
+                for d in range(rank):
+                    ops += ["redd %s 2 %s 0 %d" % (fn, op, d), "redd %s 0 %s 1 %d" % (fn, op, d), "redd %s 3 %s 3 %d" % (fn, op, d)]
+                for d in dims_bad:
+                    ops += ["redd %s 0 %s 1 %d" % (fn, op, d), "redd %s 0 %s 2 %d" % (fn, op, d), "redd %s 3 %s 3 %d" % (fn, op, d)]
+                ops += ["red %s 0 %s 1" % (fn, "gt" if fn in RED_BOOL else "mul")]
+            history("reduce_mismatch", ops)
+            history("reduce_dim_invalid", ops)
+        ops = ["new 0 %s 1 3" % ty, "new 1 %s 2 3" % ty, "new 2 %s 3 4" % ty, "new 3 %s 0 0" % ty, "new 4 %s 0 0 0" % ty, "new 5 %s 0 3 4" % ty,
+               "new 6 %s 0 0 0 0" % ty, "new 7 %s 5 2 3" % ty]
+        for fn in ("minloc", "maxloc"):
+            for op in ("add", "sub", "mul"):
+                ops += ["loc %s 0 %s 2" % (fn, op), "loc %s 0 %s 1" % (fn, op), "loc %s 3 %s 3" % (fn, op), "loc %s 3 %s 0" % (fn, op)]
+        ops += ["find 0 2", "find 2 0", "find 0 1", "find 1 0", "find 3 3", "find 3 0", "dot 0 2", "dot 0 1", "dot 3 3", "dot 0 3"]
+        history("loc_mismatch", ops)
+        ops = ops[:8]
+        ops += ["outer 4 0 2 1", "outer 4 0 1 3", "outer 4 3 3 0", "outer 4 0 1 2", "outer 4 0 1 0", "outer 5 0 1 0", "outer 5 0 1 2", "outer 5 0 2 2"]
+        for D in (0, 1):
+            ops += ["clear 4", "spread 4 %d 0 2 2" % D, "spread 4 %d 0 1 -2" % D, "spread 4 %d 3 3 -2" % D, "spread 4 %d 0 1 0" % D,
+                    "spread 4 %d 0 1 2" % D, "spread 4 %d 0 1 3" % D, "spread 4 %d 0 1 -1" % D, "spread 4 %d 0 2 2" % D, "spread 4 %d 3 3 2" % D]
+        for D in (0, 1, 2):
+            ops += ["clear 6", "spread 6 %d 7 5 2" % D, "spread 6 %d 7 7 -1" % D, "spread 6 %d 7 7 2" % D, "spread 6 %d 7 7 3" % D, "spread 6 %d 5 7 2" % D]
+        for o in range(-4, 6):
+            ops += ["diagv 7 7 %d" % o, "diagv 5 5 %d" % o, "diagv 4 4 %d" % o]
+        ops += ["diagv 7 5 0", "diagv 5 7 1", "diagm 0 1", "diagm 0 2", "diagm 3 3", "diagm 3 0"]
+        history("expand_mismatch", ops)
+        ops = ops[:8]
+        ops += ["wherex 0 0 1 1 1", "wherex 0 0 2 1 1", "wherex 0 2 2 1 1", "wherex 0 0 1 1 2", "wherex 0 0 1 2 2", "wherex 3 3 3 3 3",
+                "wherex 3 0 1 0 1", "wherex 3 3 3 0 1", "wherex 0 3 3 0 1", "wherex 7 7 7 7 5", "wherex 7 7 5 7 7", "wherex 7 7 7 7 7"]
+        history("wherex_mismatch", ops)
+        ops = ops[:8]
+        ops += ["eor 0 1 1 1", "eor 0 2 1 1", "eor 0 1 2 1", "eor 0 1 1 2", "eor 0 1 2 2", "eor 0 1 3 1", "eor 0 1 1 3", "eor 3 3 3 3", "eor 3 0 3 3",
+                "eor 3 3 0 3", "fill 1 1 -1 1", "new 0 %s 0 3" % ty, "eor 0 1 2 1", "eor 0 1 1 2", "eor 7 7 7 5", "eor 7 5 7 7", "eor 7 7 5 7"]
+        history("eor_mismatch", ops)
+    # solve / inv
+    ops = ["new 0 d 0 2 2", "fill 0 0 1 -1 0", "new 1 d 1 2", "new 2 d 1 3", "new 3 d 1 2 3", "new 4 d 1 3 2", "new 5 d 0 0 0", "new 6 d 0 0",
+           "solve 0 1", "solve 0 2", "solve 0 3", "solve 0 4", "solve 3 1", "solve 3 2", "solve 3 3", "solve 4 1", "solve 4 2", "solve 4 4",
+           "solve 0 6", "solve 0 5", "inv 3", "inv 4", "inv 0"]
+    history("solve_invalid", ops)
+    # negative extents for every rank and form
+    ops = []
+    for ty in "dia":
+        for rank in ((1, 2) if ty == "a" else (1, 2, 3, 4)):
+            h = 12 if ty == "a" else 0
+            ops.append("new %d %s 1 %s" % (h, ty, " ".join(["2"] * rank)))
+            for pos in range(rank):
+                for lead in (2, 0):
+                    d = [2] * rank
+                    d[pos] = -3
+                    if pos > 0:
+                        d[0] = lead
+                    ds = " ".join(map(str, d))
+                    ops += ["new %d %s 0 %s" % (h + 1, ty, ds)] + ["%s %d 4 %s" % (f, h, ds) for f in ("resize", "resized", "resizerm", "resizecm")]
+            ops.append("resize %d 3 %s" % (h, " ".join(["2"] * rank)))
+    history("neg_new", ops)
+    history("neg_resize", ops)
+    # special targets
+    ops = ["new 8 f 1 3", "new 9 f 2 2 3", "new 10 s 1 3", "new 11 t 2 3", "new 0 d 1 3", "new 1 d 2 4", "new 2 d 1 2 3", "new 3 d 2 3 3", "new 4 d 3 3 2",
+           "new 5 d 0 0", "new 6 d 0 0 0", "new 7 d 4 2 2"]
+    for tgt, good, bad in ((8, 0, 1), (9, 2, 3), (10, 3, 4), (11, 3, 2), (10, 3, 7), (11, 3, 7)):
+        ops += ["asg %d %d add %d" % (tgt, good, good), "asg %d %d add %d" % (tgt, good, bad), "asg %d %d mul %d" % (tgt, bad, good),
+                "asg %d %d sub %d" % (tgt, bad, bad), "cp %d %d" % (tgt, bad), "cp %d %d" % (tgt, good)]
+        ops += ["%s %d %d" % (f, tgt, bad) for f in ("cadd", "csub", "cmul")] + ["cadd %d %d" % (tgt, good)]
+        ops += ["asg %d %d add %d" % (tgt, 5 if tgt == 8 else 6, 5 if tgt == 8 else 6), "cp %d %d" % (tgt, 5 if tgt == 8 else 6)]
+    ops += ["where 8 0 0", "where 8 1 0", "where 8 0 1", "where 8 5 5", "where 9 2 2", "where 9 3 2", "where 9 2 4", "diag 9 0", "diag 9 1", "subdiag 9 0 0",
+            "asg 0 8 add 0", "asg 0 8 add 1", "asg 5 8 mul 1", "asg 5 8 mul 0", "asg 2 9 add 2", "asg 2 9 add 3", "asg 6 9 sub 4",
+            "new 8 s 2 2", "new 9 t 3 2", "asg 10 10 add 8", "asg 10 8 add 10", "asg 3 10 add 8", "asg 3 10 add 10", "asg 4 10 add 10", "asg 6 10 mul 8",
+            "asg 11 11 sub 9", "asg 11 9 add 11", "asg 3 11 add 9", "asg 3 11 mul 11", "cp 10 8", "cp 8 10", "cp 3 8", "cadd 10 8", "cp 11 9", "cmul 11 9",
+            "clear 8", "asg 8 2 add 2", "asg 8 2 add 3", "asg 8 7 add 7", "clear 9", "cp 9 4", "cp 9 6", "cp 9 3",
+            "subdiag 10 0 1", "subdiag 10 0 3", "subdiag 10 -1 1", "subdiag 10 2 1", "subdiag 11 1 2", "subdiag 11 1 3",
+            "clear 8", "link 10 8", "link 8 10", "link 11 9", "clear 9", "link 11 9", "subdiag 9 0 0"]
+    history("special_mismatch", ops)
+    ops = ["new 8 s 1 3", "new 9 t 2 2"]
+    for bad in ("-1", "-5", "2 3", "3 2", "-1 -1", "-2 -3", "0 -1", "2 0", "0 2"):
+        ops += ["new 10 s 0 " + bad, "new 11 t 0 " + bad, "resize 8 1 " + bad, "resize 9 1 " + bad]
+    ops += ["resize 8 1 0", "resize 8 2 -1", "resize 8 2 2 2", "resize 9 3 0 0", "resize 9 1 -2", "new 10 s 0 0", "new 11 t 0 0 0", "subdiag 8 0 1", "subdiag 9 0 0"]
+    history("special_resize", ops)
+    # active arrays
+    ops = ["new 12 a 1 3", "new 13 a 2 3", "new 14 a 3 4", "new 15 a 1 2 3", "new 16 a 2 3 2", "new 17 a 3 2 3", "new 18 a 0 0", "new 19 a 0 0 0", "rec"]
+    ops += ["asg 18 12 mul 13", "jac 18 12", "jac 18 13"]
+    for f in ("add", "sub", "mul"):
+        ops += ["asg 18 12 %s 14" % f, "asg 12 12 %s 14" % f, "asg 14 13 %s 12" % f, "asg 19 15 %s 16" % f, "asg 15 15 %s 16" % f]
+    ops += ["cp 12 14", "cadd 12 14", "csub 13 14", "cmul 12 14", "cp 15 16", "cmul 15 16", "where 12 14 13", "where 12 13 14", "where 15 16 17", "where 15 17 16",
+            "jac 18 12", "jac 18 13", "jac 12 12", "jac 15 15"]
+    for fn in RED_NUM:
+        ops += ["reda 18 %s 12 add 14" % fn, "reda 18 %s 14 mul 12" % fn, "reda 19 %s 15 add 16" % fn]
+    for fn in ("sum", "product", "minval", "maxval"):
+        ops += ["reda 18 %s 12 mul 13" % fn, "jac 18 12", "jac 18 13", "redda 18 %s 15 add 16 0" % fn, "redda 18 %s 15 add 17 1" % fn, "jac 18 15", "jac 18 17",
+                "redda 18 %s 15 add 17 0" % fn, "jac 18 17", "redda 12 %s 15 add 17 1" % fn, "redda 18 %s 15 add 17 2" % fn, "redda 18 %s 15 add 17 40" % fn]
+        if negdim_ok:
+            ops += ["redda 18 %s 15 add 17 -1" % fn, "redda 18 %s 16 add 17 -1" % fn]
+    ops += ["diagva 18 15 16 0", "diagva 18 15 17 0", "jac 18 15", "diagva 18 15 17 1", "diagva 18 15 17 -1", "diagva 14 15 17 0", "diagva 18 15 17 5", "jac 18 17",
+            "new 20 a 0 -2", "new 20 a 0 2 -2", "resize 12 1 -3", "resized 15 1 2 -3", "resizerm 15 1 -2 3", "jac 18 17", "jac 13 13"]
+    history("active_mismatch", ops)
+    return cases
+
+
 def build_b(bounds):
+    """one translation unit per part of harness/drv_misuse.cpp (MISUSE_PART=0..7), compiled in parallel by vbuild; the stub
+    sources carry the hash of the driver, so that the content-keyed object cache follows its edits"""
+    src = os.path.join(vbuild.VERIF, "harness", "drv_misuse.cpp")
+    h = hashlib.sha256(open(src, "rb").read()).hexdigest()[:16]
+    gen = os.path.join(vbuild.WORK, "gen")
+    os.makedirs(gen, exist_ok=True)
+    drivers = []
+    for part in range(NPARTS):
+        p = os.path.join(gen, "misuse_p%d_%s.cpp" % (part, h))
+        if not os.path.exists(p):
+            tmp = p + ".%d.%d.tmp" % (os.getpid(), threading.get_ident())
+            with open(tmp, "w") as f:
+                f.write("// part %d of %s (sha256 %s)\n#define MISUSE_PART %d\n#include \"%s\"\n" % (part, src, h, part, src))
+            os.replace(tmp, p)
+        drivers.append(p)
+    for fn in os.listdir(gen):                   # stubs of older versions of the driver
+        if fn.startswith("misuse_p") and h not in fn and time.time() - os.path.getmtime(os.path.join(gen, fn)) > 3600:
+            try:
+                os.remove(os.path.join(gen, fn))
+            except OSError:
+                pass
     defs = ["HAVE_BLAS=1", "HAVE_LAPACK=1"] + (["ADEPT_BOUNDS_CHECKING"] if bounds else [])
-    return vbuild.build("misuse", os.path.join(vbuild.VERIF, "harness", "drv_misuse.cpp"), defines=defs,
-                        link=["-llapack", "-lblas"], extra=["-std=c++17"])
+    return vbuild.build("misuse", drivers, defines=defs, link=["-llapack", "-lblas"], extra=["-std=c++17"])
+
+
+NPARTS = 11
 
 
 def reference_lines(ops, bounds):
@@ -1362,8 +2519,6 @@ def reference_lines(ops, bounds):
         try:
             if w[0] == "cfg":
                 p = PyPool(bounds); out.append("cfg")
-            elif w[0] == "order":
-                out.append("ok")
             else:
                 out.append(p.line(o))
         except Exception:
@@ -1371,9 +2526,16 @@ def reference_lines(ops, bounds):
     return out
 
 
+def keeps_partial_effect(op):
+    """failing operations whose partial effect stays (and which therefore stay in the reduced history): `<<` (documented:
+    the elements written before the exception stay written) and `where(m) = either_or(c, d)` (two conditional assignments,
+    each with its own size test; noted as an observation)"""
+    return op.startswith("fill ") or op.startswith("eor ")
+
+
 def reduced_b(ops, il):
-    """failing operations removed; a failing `fill` stays (its partial effect is documented)"""
-    keep = [i for i, l in enumerate(il[:len(ops)]) if not (l.startswith("EXC ") and not ops[i].startswith("fill "))]
+    """failing operations removed (except those with a partial effect)"""
+    keep = [i for i, l in enumerate(il[:len(ops)]) if not (l.startswith("EXC ") and not keeps_partial_effect(ops[i]))]
     return [ops[i] for i in keep], keep
 
 
@@ -1388,17 +2550,21 @@ def judge_b(exe, ops, meta, il=None, rc=0, err="", rl=None):
     inj = dict(meta.get("inj", []))
     for i, (o, l, e) in enumerate(zip(ops, il, exp)):
         cls = inj.get(i)
+        if l in ("bad-op", "unmodelled", "cfg-mismatch"):
+            return "op %d `%s`: the driver answered %r" % (i, o, l), il
         if cls and l.startswith("EXC "):
-            name = l[4:].split(" |")[0]
+            name = l[4:].split(" |")[0].split()[0]
             if name not in DOC_B[cls]:
                 return "op %d `%s`: misuse class %s raised %r, the manual documents %s" % (i, o, cls, name, "/".join(sorted(DOC_B[cls]))), il
         if cls and not l.startswith("EXC ") and e is not None and e.startswith("EXC "):
             return "op %d `%s`: misuse class %s was not reported: %r (documented: %s)" % (i, o, cls, l[:160], e.split(" |")[0]), il
+        m = re.match(r"EXC \S+ rec\+(-?\d+)\+(-?\d+)", l)
+        if m and (m.group(1), m.group(2)) != ("0", "0"):
+            return ("op %d `%s`: the failed statement pushed %s statement(s) and %s operation(s) on the recording before it raised "
+                    "its exception" % (i, o, m.group(1), m.group(2))), il
         if e is not None and l != e:
             return ("op %d `%s`%s: implementation printed %r, the reference semantics written from the manual gives %r" %
                     (i, o, " (injected misuse %s)" % cls if cls else "", l[:200], e[:200])), il
-        if l in ("bad-op", "unmodelled", "cfg-mismatch"):
-            return "op %d `%s`: the driver answered %r" % (i, o, l), il
     rops, keep = reduced_b(ops, il)
     if len(rops) != len(ops):
         if rl is None:
@@ -1412,15 +2578,43 @@ def judge_b(exe, ops, meta, il=None, rc=0, err="", rl=None):
     return None, il
 
 
-def shrink_b(exe, ops, meta, kind):
+def shrink_b(exe, ops, meta, kind, sig=None):
     def fails(sub):
         if not sub or not sub[0].startswith("cfg"):
             return False
         v, _ = judge_b(exe, sub, {"bounds": meta.get("bounds", False)})
         if v is None:
             return False
-        return ("aborted" in v) == (kind == "crash")
+        if kind == "crash":
+            return "aborted" in v and (sig is None or signature_of(v) == sig)
+        # (a history that has lost the creation of an operand is not a smaller witness: the driver answers bad-op)
+        return "aborted" not in v and "the driver answered" not in v
     return vcheck.ddmin(list(ops), fails, max_tests=250)
+
+
+# A defect of the pinned tree that this check demonstrates and whose disposition (fix commit or known_findings.json entry)
+# is the coordinator's: reported as KNOWN-FINDING, never silently skipped.  See the final report of the C11 builder.
+PENDING_FINDINGS = {}     # (F-75, reductions along a negative dimension, was listed here until it was fixed in /repo: 0632fac)
+
+
+def probe_negdim(ctx, exe, label, bounds):
+    """does the tree raise invalid_dimension for a negative dimension argument of a reduction of rank >= 2?  (run alone:
+    on the unfixed tree the operation overruns the stack)"""
+    ops = ["cfg %d" % (1 if bounds else 0), "new 0 d 1 2 3", "new 1 d 2 2 3", "redd sum 0 add 1 -1"]
+    il, rc, err = vcheck.run_impl(exe, [], "\n".join(ops) + "\n")
+    if len(il) == len(ops) and rc == 0 and il[-1].startswith("EXC invalid_dimension"):
+        return True
+    msg = "implementation aborted at op 3 `%s` (rc=%s): %s" % (ops[-1], rc, sanitizer_summary(err))
+    sig = signature_of(msg)
+    if sig in PENDING_FINDINGS and len(il) == len(ops) - 1:
+        line = "KNOWN-FINDING: property=C11 %s" % PENDING_FINDINGS[sig]
+        if line not in ctx.known:
+            ctx.known.append(line)
+        ctx.notes.setdefault("partB", {}).setdefault("pending_findings", {})[sig] = {"witness": ops, "build": label}
+        return False
+    report_b(ctx, exe, label, ops, {"bounds": bounds, "inj": []}, msg if len(il) < len(ops) else
+             "op 3 `%s`: a negative dimension argument was not reported: %r" % (ops[-1], il[-1][:160]), il)
+    return False
 
 
 def report_b(ctx, exe, label, ops, meta, verdict, il):
@@ -1428,7 +2622,7 @@ def report_b(ctx, exe, label, ops, meta, verdict, il):
     if ctx.nbad > 3:
         return
     kind = "crash" if "aborted" in verdict or "stopped" in verdict else "oracle"
-    shr = shrink_b(exe, ops, meta, kind)
+    shr = shrink_b(exe, ops, meta, kind, signature_of(verdict) if kind == "crash" else None)
     v2, il2 = judge_b(exe, shr, {"bounds": meta.get("bounds", False)})
     if v2 is None:
         shr, v2, il2 = ops, verdict, il
@@ -1437,6 +2631,12 @@ def report_b(ctx, exe, label, ops, meta, verdict, il):
     sig = signature_of(v2)
     if sig:
         obj["signature"] = sig
+    if sig in PENDING_FINDINGS:
+        line = "KNOWN-FINDING: property=C11 %s" % PENDING_FINDINGS[sig]
+        if line not in ctx.known:
+            ctx.known.append(line)
+        ctx.nbad -= 1
+        return
     ctx.violation("%s [part B, build %s]" % (v2, label), obj)
 
 
@@ -1452,7 +2652,9 @@ def run_cases_b(ctx, exe, label, cases):
     rtext = "".join("\n".join(r[0]) + "\n" for r in red if r[0] is not None)
     rimpl, rrc, rerr = vcheck.run_impl(exe, [], rtext)
     pos = rpos = 0
-    pb = ctx.notes.setdefault("partB", {"injection_points": {}, "exceptions_seen": {}, "ops": {}, "sizes": {}})
+    pb = ctx.notes.setdefault("partB", {})
+    for key in ("injection_points", "exceptions_seen", "ops", "sizes", "ranks", "kinds", "failed_ops_by_kind"):
+        pb.setdefault(key, {})
     for (ops, meta), (rops, keep) in zip(cases, red):
         il, ml = impl[pos:pos + len(ops)], model[pos:pos + len(ops)]
         pos += len(ops)
@@ -1469,11 +2671,16 @@ def run_cases_b(ctx, exe, label, cases):
         for i, cls in meta["inj"]:
             _bump(pb["injection_points"], cls)
         for o, l in zip(ops, il):
-            _bump(pb["ops"], o.split()[0])
+            w0 = o.split()[0]
+            _bump(pb["ops"], w0)
             if l.startswith("EXC "):
-                _bump(pb["exceptions_seen"], l[4:].split(" |")[0])
-            for m in re.finditer(r"\[(\d+)(?:x(\d+))?\]", l):
-                _bump(pb["sizes"], m.group(1))
+                _bump(pb["exceptions_seen"], l[4:].split(" |")[0].split()[0])
+                _bump(pb["failed_ops_by_kind"], w0)
+            for m in re.finditer(r"\d+:([idafst])\[(\d+(?:x\d+)*)\]", l):
+                ext = m.group(2).split("x")
+                _bump(pb["kinds"], m.group(1))
+                _bump(pb["ranks"], "%s%d" % (m.group(1), len(ext)))
+                _bump(pb["sizes"], ext[0])
         if v is not None:
             report_b(ctx, exe, label, ops, meta, v, il)
         else:
